@@ -9,6 +9,16 @@ type nat =
 | O
 | S of nat
 
+type ('a, 'b) sum =
+| Inl of 'a
+| Inr of 'b
+
+(** val length : 'a1 list -> nat **)
+
+let rec length = function
+| [] -> O
+| _ :: l' -> S (length l')
+
 (** val app : 'a1 list -> 'a1 list -> 'a1 list **)
 
 let rec app l m =
@@ -16,12 +26,26 @@ let rec app l m =
   | [] -> m
   | a :: l1 -> a :: (app l1 m)
 
-(** val add : nat -> nat -> nat **)
+type comparison =
+| Eq
+| Lt
+| Gt
 
-let rec add n0 m =
-  match n0 with
-  | O -> m
-  | S p -> S (add p m)
+(** val compOpp : comparison -> comparison **)
+
+let compOpp = function
+| Eq -> Eq
+| Lt -> Gt
+| Gt -> Lt
+
+module Coq__1 = struct
+ (** val add : nat -> nat -> nat **)
+ let rec add n0 m =
+   match n0 with
+   | O -> m
+   | S p -> S (add p m)
+end
+include Coq__1
 
 (** val eqb : bool -> bool -> bool **)
 
@@ -67,6 +91,12 @@ let rec nth n0 l default =
             | [] -> default
             | _ :: t -> nth m t default)
 
+(** val rev : 'a1 list -> 'a1 list **)
+
+let rec rev = function
+| [] -> []
+| x :: l' -> app (rev l') (x :: [])
+
 (** val map : ('a1 -> 'a2) -> 'a1 list -> 'a2 list **)
 
 let rec map f = function
@@ -101,6 +131,15 @@ let rec firstn n0 l =
              | [] -> []
              | a :: l0 -> a :: (firstn n1 l0))
 
+(** val skipn : nat -> 'a1 list -> 'a1 list **)
+
+let rec skipn n0 l =
+  match n0 with
+  | O -> l
+  | S n1 -> (match l with
+             | [] -> []
+             | _ :: l0 -> skipn n1 l0)
+
 type positive =
 | XI of positive
 | XO of positive
@@ -110,8 +149,125 @@ type n =
 | N0
 | Npos of positive
 
+type z =
+| Z0
+| Zpos of positive
+| Zneg of positive
+
 module Pos =
  struct
+  (** val succ : positive -> positive **)
+
+  let rec succ = function
+  | XI p -> XO (succ p)
+  | XO p -> XI p
+  | XH -> XO XH
+
+  (** val add : positive -> positive -> positive **)
+
+  let rec add x y =
+    match x with
+    | XI p ->
+      (match y with
+       | XI q -> XO (add_carry p q)
+       | XO q -> XI (add p q)
+       | XH -> XO (succ p))
+    | XO p ->
+      (match y with
+       | XI q -> XI (add p q)
+       | XO q -> XO (add p q)
+       | XH -> XI p)
+    | XH -> (match y with
+             | XI q -> XO (succ q)
+             | XO q -> XI q
+             | XH -> XO XH)
+
+  (** val add_carry : positive -> positive -> positive **)
+
+  and add_carry x y =
+    match x with
+    | XI p ->
+      (match y with
+       | XI q -> XI (add_carry p q)
+       | XO q -> XO (add_carry p q)
+       | XH -> XI (succ p))
+    | XO p ->
+      (match y with
+       | XI q -> XO (add_carry p q)
+       | XO q -> XI (add p q)
+       | XH -> XO (succ p))
+    | XH ->
+      (match y with
+       | XI q -> XI (succ q)
+       | XO q -> XO (succ q)
+       | XH -> XI XH)
+
+  (** val pred_double : positive -> positive **)
+
+  let rec pred_double = function
+  | XI p -> XI (XO p)
+  | XO p -> XI (pred_double p)
+  | XH -> XH
+
+  (** val pred_N : positive -> n **)
+
+  let pred_N = function
+  | XI p -> Npos (XO p)
+  | XO p -> Npos (pred_double p)
+  | XH -> N0
+
+  (** val mul : positive -> positive -> positive **)
+
+  let rec mul x y =
+    match x with
+    | XI p -> add y (XO (mul p y))
+    | XO p -> XO (mul p y)
+    | XH -> y
+
+  (** val iter : ('a1 -> 'a1) -> 'a1 -> positive -> 'a1 **)
+
+  let rec iter f x = function
+  | XI n' -> f (iter f (iter f x n') n')
+  | XO n' -> iter f (iter f x n') n'
+  | XH -> f x
+
+  (** val div2 : positive -> positive **)
+
+  let div2 = function
+  | XI p0 -> p0
+  | XO p0 -> p0
+  | XH -> XH
+
+  (** val div2_up : positive -> positive **)
+
+  let div2_up = function
+  | XI p0 -> succ p0
+  | XO p0 -> p0
+  | XH -> XH
+
+  (** val compare_cont : comparison -> positive -> positive -> comparison **)
+
+  let rec compare_cont r x y =
+    match x with
+    | XI p ->
+      (match y with
+       | XI q -> compare_cont r p q
+       | XO q -> compare_cont Gt p q
+       | XH -> Gt)
+    | XO p ->
+      (match y with
+       | XI q -> compare_cont Lt p q
+       | XO q -> compare_cont r p q
+       | XH -> Gt)
+    | XH -> (match y with
+             | XH -> r
+             | _ -> Lt)
+
+  (** val compare : positive -> positive -> comparison **)
+
+  let compare =
+    compare_cont Eq
+
   (** val eqb : positive -> positive -> bool **)
 
   let rec eqb p q =
@@ -125,10 +281,133 @@ module Pos =
     | XH -> (match q with
              | XH -> true
              | _ -> false)
+
+  (** val coq_Nsucc_double : n -> n **)
+
+  let coq_Nsucc_double = function
+  | N0 -> Npos XH
+  | Npos p -> Npos (XI p)
+
+  (** val coq_Ndouble : n -> n **)
+
+  let coq_Ndouble = function
+  | N0 -> N0
+  | Npos p -> Npos (XO p)
+
+  (** val coq_lor : positive -> positive -> positive **)
+
+  let rec coq_lor p q =
+    match p with
+    | XI p0 ->
+      (match q with
+       | XI q0 -> XI (coq_lor p0 q0)
+       | XO q0 -> XI (coq_lor p0 q0)
+       | XH -> p)
+    | XO p0 ->
+      (match q with
+       | XI q0 -> XI (coq_lor p0 q0)
+       | XO q0 -> XO (coq_lor p0 q0)
+       | XH -> XI p0)
+    | XH -> (match q with
+             | XO q0 -> XI q0
+             | _ -> q)
+
+  (** val coq_land : positive -> positive -> n **)
+
+  let rec coq_land p q =
+    match p with
+    | XI p0 ->
+      (match q with
+       | XI q0 -> coq_Nsucc_double (coq_land p0 q0)
+       | XO q0 -> coq_Ndouble (coq_land p0 q0)
+       | XH -> Npos XH)
+    | XO p0 ->
+      (match q with
+       | XI q0 -> coq_Ndouble (coq_land p0 q0)
+       | XO q0 -> coq_Ndouble (coq_land p0 q0)
+       | XH -> N0)
+    | XH -> (match q with
+             | XO _ -> N0
+             | _ -> Npos XH)
+
+  (** val ldiff : positive -> positive -> n **)
+
+  let rec ldiff p q =
+    match p with
+    | XI p0 ->
+      (match q with
+       | XI q0 -> coq_Ndouble (ldiff p0 q0)
+       | XO q0 -> coq_Nsucc_double (ldiff p0 q0)
+       | XH -> Npos (XO p0))
+    | XO p0 ->
+      (match q with
+       | XI q0 -> coq_Ndouble (ldiff p0 q0)
+       | XO q0 -> coq_Ndouble (ldiff p0 q0)
+       | XH -> Npos p)
+    | XH -> (match q with
+             | XO _ -> Npos XH
+             | _ -> N0)
+
+  (** val testbit : positive -> n -> bool **)
+
+  let rec testbit p n0 =
+    match p with
+    | XI p0 -> (match n0 with
+                | N0 -> true
+                | Npos n1 -> testbit p0 (pred_N n1))
+    | XO p0 -> (match n0 with
+                | N0 -> false
+                | Npos n1 -> testbit p0 (pred_N n1))
+    | XH -> (match n0 with
+             | N0 -> true
+             | Npos _ -> false)
+
+  (** val iter_op : ('a1 -> 'a1 -> 'a1) -> positive -> 'a1 -> 'a1 **)
+
+  let rec iter_op op p a =
+    match p with
+    | XI p0 -> op a (iter_op op p0 (op a a))
+    | XO p0 -> iter_op op p0 (op a a)
+    | XH -> a
+
+  (** val to_nat : positive -> nat **)
+
+  let to_nat x =
+    iter_op Coq__1.add x (S O)
+
+  (** val of_succ_nat : nat -> positive **)
+
+  let rec of_succ_nat = function
+  | O -> XH
+  | S x -> succ (of_succ_nat x)
  end
 
 module N =
  struct
+  (** val succ_pos : n -> positive **)
+
+  let succ_pos = function
+  | N0 -> XH
+  | Npos p -> Pos.succ p
+
+  (** val add : n -> n -> n **)
+
+  let add n0 m =
+    match n0 with
+    | N0 -> m
+    | Npos p -> (match m with
+                 | N0 -> n0
+                 | Npos q -> Npos (Pos.add p q))
+
+  (** val mul : n -> n -> n **)
+
+  let mul n0 m =
+    match n0 with
+    | N0 -> N0
+    | Npos p -> (match m with
+                 | N0 -> N0
+                 | Npos q -> Npos (Pos.mul p q))
+
   (** val eqb : n -> n -> bool **)
 
   let eqb n0 m =
@@ -139,7 +418,366 @@ module N =
     | Npos p -> (match m with
                  | N0 -> false
                  | Npos q -> Pos.eqb p q)
+
+  (** val coq_lor : n -> n -> n **)
+
+  let coq_lor n0 m =
+    match n0 with
+    | N0 -> m
+    | Npos p -> (match m with
+                 | N0 -> n0
+                 | Npos q -> Npos (Pos.coq_lor p q))
+
+  (** val ldiff : n -> n -> n **)
+
+  let ldiff n0 m =
+    match n0 with
+    | N0 -> N0
+    | Npos p -> (match m with
+                 | N0 -> n0
+                 | Npos q -> Pos.ldiff p q)
+
+  (** val testbit : n -> n -> bool **)
+
+  let testbit a n0 =
+    match a with
+    | N0 -> false
+    | Npos p -> Pos.testbit p n0
+
+  (** val to_nat : n -> nat **)
+
+  let to_nat = function
+  | N0 -> O
+  | Npos p -> Pos.to_nat p
  end
+
+module Z =
+ struct
+  (** val double : z -> z **)
+
+  let double = function
+  | Z0 -> Z0
+  | Zpos p -> Zpos (XO p)
+  | Zneg p -> Zneg (XO p)
+
+  (** val succ_double : z -> z **)
+
+  let succ_double = function
+  | Z0 -> Zpos XH
+  | Zpos p -> Zpos (XI p)
+  | Zneg p -> Zneg (Pos.pred_double p)
+
+  (** val pred_double : z -> z **)
+
+  let pred_double = function
+  | Z0 -> Zneg XH
+  | Zpos p -> Zpos (Pos.pred_double p)
+  | Zneg p -> Zneg (XI p)
+
+  (** val pos_sub : positive -> positive -> z **)
+
+  let rec pos_sub x y =
+    match x with
+    | XI p ->
+      (match y with
+       | XI q -> double (pos_sub p q)
+       | XO q -> succ_double (pos_sub p q)
+       | XH -> Zpos (XO p))
+    | XO p ->
+      (match y with
+       | XI q -> pred_double (pos_sub p q)
+       | XO q -> double (pos_sub p q)
+       | XH -> Zpos (Pos.pred_double p))
+    | XH ->
+      (match y with
+       | XI q -> Zneg (XO q)
+       | XO q -> Zneg (Pos.pred_double q)
+       | XH -> Z0)
+
+  (** val add : z -> z -> z **)
+
+  let add x y =
+    match x with
+    | Z0 -> y
+    | Zpos x' ->
+      (match y with
+       | Z0 -> x
+       | Zpos y' -> Zpos (Pos.add x' y')
+       | Zneg y' -> pos_sub x' y')
+    | Zneg x' ->
+      (match y with
+       | Z0 -> x
+       | Zpos y' -> pos_sub y' x'
+       | Zneg y' -> Zneg (Pos.add x' y'))
+
+  (** val opp : z -> z **)
+
+  let opp = function
+  | Z0 -> Z0
+  | Zpos x0 -> Zneg x0
+  | Zneg x0 -> Zpos x0
+
+  (** val sub : z -> z -> z **)
+
+  let sub m n0 =
+    add m (opp n0)
+
+  (** val mul : z -> z -> z **)
+
+  let mul x y =
+    match x with
+    | Z0 -> Z0
+    | Zpos x' ->
+      (match y with
+       | Z0 -> Z0
+       | Zpos y' -> Zpos (Pos.mul x' y')
+       | Zneg y' -> Zneg (Pos.mul x' y'))
+    | Zneg x' ->
+      (match y with
+       | Z0 -> Z0
+       | Zpos y' -> Zneg (Pos.mul x' y')
+       | Zneg y' -> Zpos (Pos.mul x' y'))
+
+  (** val pow_pos : z -> positive -> z **)
+
+  let pow_pos z0 =
+    Pos.iter (mul z0) (Zpos XH)
+
+  (** val pow : z -> z -> z **)
+
+  let pow x = function
+  | Z0 -> Zpos XH
+  | Zpos p -> pow_pos x p
+  | Zneg _ -> Z0
+
+  (** val compare : z -> z -> comparison **)
+
+  let compare x y =
+    match x with
+    | Z0 -> (match y with
+             | Z0 -> Eq
+             | Zpos _ -> Lt
+             | Zneg _ -> Gt)
+    | Zpos x' -> (match y with
+                  | Zpos y' -> Pos.compare x' y'
+                  | _ -> Gt)
+    | Zneg x' ->
+      (match y with
+       | Zneg y' -> compOpp (Pos.compare x' y')
+       | _ -> Lt)
+
+  (** val leb : z -> z -> bool **)
+
+  let leb x y =
+    match compare x y with
+    | Gt -> false
+    | _ -> true
+
+  (** val ltb : z -> z -> bool **)
+
+  let ltb x y =
+    match compare x y with
+    | Lt -> true
+    | _ -> false
+
+  (** val geb : z -> z -> bool **)
+
+  let geb x y =
+    match compare x y with
+    | Lt -> false
+    | _ -> true
+
+  (** val gtb : z -> z -> bool **)
+
+  let gtb x y =
+    match compare x y with
+    | Gt -> true
+    | _ -> false
+
+  (** val eqb : z -> z -> bool **)
+
+  let eqb x y =
+    match x with
+    | Z0 -> (match y with
+             | Z0 -> true
+             | _ -> false)
+    | Zpos p -> (match y with
+                 | Zpos q -> Pos.eqb p q
+                 | _ -> false)
+    | Zneg p -> (match y with
+                 | Zneg q -> Pos.eqb p q
+                 | _ -> false)
+
+  (** val max : z -> z -> z **)
+
+  let max n0 m =
+    match compare n0 m with
+    | Lt -> m
+    | _ -> n0
+
+  (** val min : z -> z -> z **)
+
+  let min n0 m =
+    match compare n0 m with
+    | Gt -> m
+    | _ -> n0
+
+  (** val to_nat : z -> nat **)
+
+  let to_nat = function
+  | Zpos p -> Pos.to_nat p
+  | _ -> O
+
+  (** val of_nat : nat -> z **)
+
+  let of_nat = function
+  | O -> Z0
+  | S n1 -> Zpos (Pos.of_succ_nat n1)
+
+  (** val of_N : n -> z **)
+
+  let of_N = function
+  | N0 -> Z0
+  | Npos p -> Zpos p
+
+  (** val pos_div_eucl : positive -> z -> z * z **)
+
+  let rec pos_div_eucl a b =
+    match a with
+    | XI a' ->
+      let (q, r) = pos_div_eucl a' b in
+      let r' = add (mul (Zpos (XO XH)) r) (Zpos XH) in
+      if ltb r' b
+      then ((mul (Zpos (XO XH)) q), r')
+      else ((add (mul (Zpos (XO XH)) q) (Zpos XH)), (sub r' b))
+    | XO a' ->
+      let (q, r) = pos_div_eucl a' b in
+      let r' = mul (Zpos (XO XH)) r in
+      if ltb r' b
+      then ((mul (Zpos (XO XH)) q), r')
+      else ((add (mul (Zpos (XO XH)) q) (Zpos XH)), (sub r' b))
+    | XH -> if leb (Zpos (XO XH)) b then (Z0, (Zpos XH)) else ((Zpos XH), Z0)
+
+  (** val div_eucl : z -> z -> z * z **)
+
+  let div_eucl a b =
+    match a with
+    | Z0 -> (Z0, Z0)
+    | Zpos a' ->
+      (match b with
+       | Z0 -> (Z0, a)
+       | Zpos _ -> pos_div_eucl a' b
+       | Zneg b' ->
+         let (q, r) = pos_div_eucl a' (Zpos b') in
+         (match r with
+          | Z0 -> ((opp q), Z0)
+          | _ -> ((opp (add q (Zpos XH))), (add b r))))
+    | Zneg a' ->
+      (match b with
+       | Z0 -> (Z0, a)
+       | Zpos _ ->
+         let (q, r) = pos_div_eucl a' b in
+         (match r with
+          | Z0 -> ((opp q), Z0)
+          | _ -> ((opp (add q (Zpos XH))), (sub b r)))
+       | Zneg b' -> let (q, r) = pos_div_eucl a' (Zpos b') in (q, (opp r)))
+
+  (** val div : z -> z -> z **)
+
+  let div a b =
+    let (q, _) = div_eucl a b in q
+
+  (** val modulo : z -> z -> z **)
+
+  let modulo a b =
+    let (_, r) = div_eucl a b in r
+
+  (** val odd : z -> bool **)
+
+  let odd = function
+  | Z0 -> false
+  | Zpos p -> (match p with
+               | XO _ -> false
+               | _ -> true)
+  | Zneg p -> (match p with
+               | XO _ -> false
+               | _ -> true)
+
+  (** val div2 : z -> z **)
+
+  let div2 = function
+  | Z0 -> Z0
+  | Zpos p -> (match p with
+               | XH -> Z0
+               | _ -> Zpos (Pos.div2 p))
+  | Zneg p -> Zneg (Pos.div2_up p)
+
+  (** val testbit : z -> z -> bool **)
+
+  let testbit a = function
+  | Z0 -> odd a
+  | Zpos p ->
+    (match a with
+     | Z0 -> false
+     | Zpos a0 -> Pos.testbit a0 (Npos p)
+     | Zneg a0 -> negb (N.testbit (Pos.pred_N a0) (Npos p)))
+  | Zneg _ -> false
+
+  (** val shiftl : z -> z -> z **)
+
+  let shiftl a = function
+  | Z0 -> a
+  | Zpos p -> Pos.iter (mul (Zpos (XO XH))) a p
+  | Zneg p -> Pos.iter div2 a p
+
+  (** val shiftr : z -> z -> z **)
+
+  let shiftr a n0 =
+    shiftl a (opp n0)
+
+  (** val coq_land : z -> z -> z **)
+
+  let coq_land a b =
+    match a with
+    | Z0 -> Z0
+    | Zpos a0 ->
+      (match b with
+       | Z0 -> Z0
+       | Zpos b0 -> of_N (Pos.coq_land a0 b0)
+       | Zneg b0 -> of_N (N.ldiff (Npos a0) (Pos.pred_N b0)))
+    | Zneg a0 ->
+      (match b with
+       | Z0 -> Z0
+       | Zpos b0 -> of_N (N.ldiff (Npos b0) (Pos.pred_N a0))
+       | Zneg b0 ->
+         Zneg (N.succ_pos (N.coq_lor (Pos.pred_N a0) (Pos.pred_N b0))))
+ end
+
+type ascii =
+| Ascii of bool * bool * bool * bool * bool * bool * bool * bool
+
+(** val n_of_digits : bool list -> n **)
+
+let rec n_of_digits = function
+| [] -> N0
+| b :: l' ->
+  N.add (if b then Npos XH else N0) (N.mul (Npos (XO XH)) (n_of_digits l'))
+
+(** val n_of_ascii : ascii -> n **)
+
+let n_of_ascii = function
+| Ascii (a0, a1, a2, a3, a4, a5, a6, a7) ->
+  n_of_digits
+    (a0 :: (a1 :: (a2 :: (a3 :: (a4 :: (a5 :: (a6 :: (a7 :: []))))))))
+
+(** val nat_of_ascii : ascii -> nat **)
+
+let nat_of_ascii a =
+  N.to_nat (n_of_ascii a)
+
+type string =
+| EmptyString
+| String of ascii * string
 
 type addr = bool list
 
@@ -626,3 +1264,2337 @@ let replay1 acc c =
 
 let replay cbs x =
   fold_left replay1 cbs (Some x)
+
+(** val wrapu : z -> z -> z **)
+
+let wrapu bits v =
+  Z.modulo v (Z.pow (Zpos (XO XH)) bits)
+
+(** val wraps : z -> z -> z **)
+
+let wraps bits v =
+  let m = Z.modulo v (Z.pow (Zpos (XO XH)) bits) in
+  if Z.ltb m (Z.pow (Zpos (XO XH)) (Z.sub bits (Zpos XH)))
+  then m
+  else Z.sub m (Z.pow (Zpos (XO XH)) bits)
+
+(** val shift_ok : z -> z -> bool **)
+
+let shift_ok width0 cnt =
+  (&&) (Z.leb Z0 cnt) (Z.ltb cnt width0)
+
+(** val notu : z -> z -> z **)
+
+let notu bits v =
+  Z.sub (Z.sub (Z.pow (Zpos (XO XH)) bits) (Zpos XH)) v
+
+(** val guard : bool -> 'a1 option -> 'a1 option **)
+
+let guard ok k =
+  if ok then k else None
+
+(** val c_RTR_CONNECTING : z **)
+
+let c_RTR_CONNECTING =
+  Z0
+
+(** val c_RTR_ESTABLISHED : z **)
+
+let c_RTR_ESTABLISHED =
+  Zpos XH
+
+(** val c_RTR_RESET : z **)
+
+let c_RTR_RESET =
+  Zpos (XO XH)
+
+(** val c_RTR_SYNC : z **)
+
+let c_RTR_SYNC =
+  Zpos (XI XH)
+
+(** val c_RTR_FAST_RECONNECT : z **)
+
+let c_RTR_FAST_RECONNECT =
+  Zpos (XO (XO XH))
+
+(** val c_RTR_ERROR_NO_DATA_AVAIL : z **)
+
+let c_RTR_ERROR_NO_DATA_AVAIL =
+  Zpos (XI (XO XH))
+
+(** val c_RTR_ERROR_NO_INCR_UPDATE_AVAIL : z **)
+
+let c_RTR_ERROR_NO_INCR_UPDATE_AVAIL =
+  Zpos (XO (XI XH))
+
+(** val c_RTR_ERROR_FATAL : z **)
+
+let c_RTR_ERROR_FATAL =
+  Zpos (XI (XI XH))
+
+(** val c_RTR_ERROR_TRANSPORT : z **)
+
+let c_RTR_ERROR_TRANSPORT =
+  Zpos (XO (XO (XO XH)))
+
+(** val c_RTR_SHUTDOWN : z **)
+
+let c_RTR_SHUTDOWN =
+  Zpos (XI (XO (XO XH)))
+
+(** val c_RTR_CLOSED : z **)
+
+let c_RTR_CLOSED =
+  Zpos (XO (XI (XO XH)))
+
+(** val c_RTR_INTERVAL_MODE_IGNORE_ANY : z **)
+
+let c_RTR_INTERVAL_MODE_IGNORE_ANY =
+  Z0
+
+(** val c_RTR_INTERVAL_MODE_ACCEPT_ANY : z **)
+
+let c_RTR_INTERVAL_MODE_ACCEPT_ANY =
+  Zpos XH
+
+(** val c_RTR_INTERVAL_MODE_DEFAULT_MIN_MAX : z **)
+
+let c_RTR_INTERVAL_MODE_DEFAULT_MIN_MAX =
+  Zpos (XO XH)
+
+(** val c_SERIAL_NOTIFY : z **)
+
+let c_SERIAL_NOTIFY =
+  Z0
+
+(** val c_SERIAL_QUERY : z **)
+
+let c_SERIAL_QUERY =
+  Zpos XH
+
+(** val c_RESET_QUERY : z **)
+
+let c_RESET_QUERY =
+  Zpos (XO XH)
+
+(** val c_CACHE_RESPONSE : z **)
+
+let c_CACHE_RESPONSE =
+  Zpos (XI XH)
+
+(** val c_IPV4_PREFIX : z **)
+
+let c_IPV4_PREFIX =
+  Zpos (XO (XO XH))
+
+(** val c_IPV6_PREFIX : z **)
+
+let c_IPV6_PREFIX =
+  Zpos (XO (XI XH))
+
+(** val c_EOD : z **)
+
+let c_EOD =
+  Zpos (XI (XI XH))
+
+(** val c_CACHE_RESET : z **)
+
+let c_CACHE_RESET =
+  Zpos (XO (XO (XO XH)))
+
+(** val c_ROUTER_KEY : z **)
+
+let c_ROUTER_KEY =
+  Zpos (XI (XO (XO XH)))
+
+(** val c_ERROR : z **)
+
+let c_ERROR =
+  Zpos (XO (XI (XO XH)))
+
+(** val c_CORRUPT_DATA : z **)
+
+let c_CORRUPT_DATA =
+  Z0
+
+(** val c_NO_DATA_AVAIL : z **)
+
+let c_NO_DATA_AVAIL =
+  Zpos (XO XH)
+
+(** val c_UNSUPPORTED_PROTOCOL_VER : z **)
+
+let c_UNSUPPORTED_PROTOCOL_VER =
+  Zpos (XO (XO XH))
+
+(** val c_WITHDRAWAL_OF_UNKNOWN_RECORD : z **)
+
+let c_WITHDRAWAL_OF_UNKNOWN_RECORD =
+  Zpos (XO (XI XH))
+
+(** val c_DUPLICATE_ANNOUNCEMENT : z **)
+
+let c_DUPLICATE_ANNOUNCEMENT =
+  Zpos (XI (XI XH))
+
+(** val c_UNEXPECTED_PROTOCOL_VERSION : z **)
+
+let c_UNEXPECTED_PROTOCOL_VERSION =
+  Zpos (XO (XO (XO XH)))
+
+(** val c_RTR_EXPIRATION_MAX : z **)
+
+let c_RTR_EXPIRATION_MAX =
+  Zpos (XO (XO (XO (XO (XO (XO (XO (XO (XI (XI (XO (XO (XO (XI (XO (XI (XO
+    XH)))))))))))))))))
+
+(** val c_RTR_EXPIRATION_MIN : z **)
+
+let c_RTR_EXPIRATION_MIN =
+  Zpos (XO (XO (XO (XI (XI (XO (XI (XO (XO XH)))))))))
+
+(** val c_RTR_MAX_PDU_LEN : z **)
+
+let c_RTR_MAX_PDU_LEN =
+  Zpos (XO (XO (XO (XO (XI (XI (XO (XI (XO (XO (XI XH)))))))))))
+
+(** val c_RTR_PROTOCOL_MAX_SUPPORTED_VERSION : z **)
+
+let c_RTR_PROTOCOL_MAX_SUPPORTED_VERSION =
+  Zpos XH
+
+(** val c_RTR_PROTOCOL_MIN_SUPPORTED_VERSION : z **)
+
+let c_RTR_PROTOCOL_MIN_SUPPORTED_VERSION =
+  Z0
+
+(** val c_RTR_RECV_TIMEOUT : z **)
+
+let c_RTR_RECV_TIMEOUT =
+  Zpos (XO (XO (XI (XI (XI XH)))))
+
+(** val c_RTR_REFRESH_MAX : z **)
+
+let c_RTR_REFRESH_MAX =
+  Zpos (XO (XO (XO (XO (XO (XO (XO (XI (XI (XO (XO (XO (XI (XO (XI (XO
+    XH))))))))))))))))
+
+(** val c_RTR_REFRESH_MIN : z **)
+
+let c_RTR_REFRESH_MIN =
+  Zpos XH
+
+(** val c_RTR_RETRY_MAX : z **)
+
+let c_RTR_RETRY_MAX =
+  Zpos (XO (XO (XO (XO (XO (XI (XO (XO (XO (XO (XI (XI XH))))))))))))
+
+(** val c_RTR_RETRY_MIN : z **)
+
+let c_RTR_RETRY_MIN =
+  Zpos XH
+
+(** val sizeof_pdu_cache_response : z **)
+
+let sizeof_pdu_cache_response =
+  Zpos (XO (XO (XO XH)))
+
+(** val sizeof_pdu_end_of_data_v0 : z **)
+
+let sizeof_pdu_end_of_data_v0 =
+  Zpos (XO (XO (XI XH)))
+
+(** val sizeof_pdu_end_of_data_v1 : z **)
+
+let sizeof_pdu_end_of_data_v1 =
+  Zpos (XO (XO (XO (XI XH))))
+
+(** val sizeof_pdu_header : z **)
+
+let sizeof_pdu_header =
+  Zpos (XO (XO (XO XH)))
+
+(** val sizeof_pdu_ipv4 : z **)
+
+let sizeof_pdu_ipv4 =
+  Zpos (XO (XO (XI (XO XH))))
+
+(** val sizeof_pdu_ipv6 : z **)
+
+let sizeof_pdu_ipv6 =
+  Zpos (XO (XO (XO (XO (XO XH)))))
+
+(** val sizeof_pdu_reset_query : z **)
+
+let sizeof_pdu_reset_query =
+  Zpos (XO (XO (XO XH)))
+
+(** val sizeof_pdu_router_key : z **)
+
+let sizeof_pdu_router_key =
+  Zpos (XI (XI (XO (XI (XI (XI XH))))))
+
+(** val sizeof_pdu_serial_notify : z **)
+
+let sizeof_pdu_serial_notify =
+  Zpos (XO (XO (XI XH)))
+
+(** val sizeof_pdu_serial_query : z **)
+
+let sizeof_pdu_serial_query =
+  Zpos (XO (XO (XI XH)))
+
+(** val lrtr_get_bits_gen : z -> z -> z -> z option **)
+
+let lrtr_get_bits_gen v_val v_from v_number =
+  guard
+    (Z.ltb (wraps (Zpos (XO (XO (XO (XO (XO XH)))))) v_number) (Zpos (XI (XO
+      (XO (XO (XO XH)))))))
+    (if Z.eqb (wraps (Zpos (XO (XO (XO (XO (XO XH)))))) v_number) Z0
+     then Some (wrapu (Zpos (XO (XO (XO (XO (XO XH)))))) Z0)
+     else let v_mask =
+            wrapu (Zpos (XO (XO (XO (XO (XO XH))))))
+              (Z.sub (Z.opp Z0) (Zpos XH))
+          in
+          if negb
+               (Z.eqb (wraps (Zpos (XO (XO (XO (XO (XO XH)))))) v_number)
+                 (Zpos (XO (XO (XO (XO (XO XH)))))))
+          then guard
+                 (shift_ok (Zpos (XO (XO (XO (XO (XO XH))))))
+                   (wraps (Zpos (XO (XO (XO (XO (XO XH)))))) v_number))
+                 (let v_mask0 =
+                    notu (Zpos (XO (XO (XO (XO (XO XH))))))
+                      (Z.shiftr v_mask
+                        (wraps (Zpos (XO (XO (XO (XO (XO XH)))))) v_number))
+                  in
+                  guard
+                    (shift_ok (Zpos (XO (XO (XO (XO (XO XH))))))
+                      (wraps (Zpos (XO (XO (XO (XO (XO XH)))))) v_from))
+                    (let v_mask1 =
+                       wrapu (Zpos (XO (XO (XO (XO (XO XH))))))
+                         (Z.shiftr v_mask0
+                           (wraps (Zpos (XO (XO (XO (XO (XO XH)))))) v_from))
+                     in
+                     Some (Z.coq_land v_mask1 v_val)))
+          else guard
+                 (shift_ok (Zpos (XO (XO (XO (XO (XO XH))))))
+                   (wraps (Zpos (XO (XO (XO (XO (XO XH)))))) v_from))
+                 (let v_mask0 =
+                    wrapu (Zpos (XO (XO (XO (XO (XO XH))))))
+                      (Z.shiftr v_mask
+                        (wraps (Zpos (XO (XO (XO (XO (XO XH)))))) v_from))
+                  in
+                  Some (Z.coq_land v_mask0 v_val)))
+
+(** val hz_zero_code : bool **)
+
+let hz_zero_code =
+  match lrtr_get_bits_gen Z0 Z0 Z0 with
+  | Some _ -> false
+  | None -> true
+
+type byte = z
+
+(** val be16 : byte -> byte -> z **)
+
+let be16 a b =
+  Z.add (Z.mul a (Zpos (XO (XO (XO (XO (XO (XO (XO (XO XH)))))))))) b
+
+(** val be32 : byte -> byte -> byte -> byte -> z **)
+
+let be32 a b c d =
+  Z.add
+    (Z.mul
+      (Z.add
+        (Z.mul
+          (Z.add (Z.mul a (Zpos (XO (XO (XO (XO (XO (XO (XO (XO XH))))))))))
+            b) (Zpos (XO (XO (XO (XO (XO (XO (XO (XO XH)))))))))) c) (Zpos
+      (XO (XO (XO (XO (XO (XO (XO (XO XH)))))))))) d
+
+(** val enc16 : z -> byte list **)
+
+let enc16 v =
+  (Z.modulo (Z.div v (Zpos (XO (XO (XO (XO (XO (XO (XO (XO XH)))))))))) (Zpos
+    (XO (XO (XO (XO (XO (XO (XO (XO XH)))))))))) :: ((Z.modulo v (Zpos (XO
+                                                       (XO (XO (XO (XO (XO
+                                                       (XO (XO XH)))))))))) :: [])
+
+(** val enc32 : z -> byte list **)
+
+let enc32 v =
+  (Z.modulo
+    (Z.div v (Zpos (XO (XO (XO (XO (XO (XO (XO (XO (XO (XO (XO (XO (XO (XO
+      (XO (XO (XO (XO (XO (XO (XO (XO (XO (XO XH))))))))))))))))))))))))))
+    (Zpos (XO (XO (XO (XO (XO (XO (XO (XO XH)))))))))) :: ((Z.modulo
+                                                             (Z.div v (Zpos
+                                                               (XO (XO (XO
+                                                               (XO (XO (XO
+                                                               (XO (XO (XO
+                                                               (XO (XO (XO
+                                                               (XO (XO (XO
+                                                               (XO
+                                                               XH))))))))))))))))))
+                                                             (Zpos (XO (XO
+                                                             (XO (XO (XO (XO
+                                                             (XO (XO
+                                                             XH)))))))))) :: (
+    (Z.modulo (Z.div v (Zpos (XO (XO (XO (XO (XO (XO (XO (XO XH))))))))))
+      (Zpos (XO (XO (XO (XO (XO (XO (XO (XO XH)))))))))) :: ((Z.modulo v
+                                                               (Zpos (XO (XO
+                                                               (XO (XO (XO
+                                                               (XO (XO (XO
+                                                               XH)))))))))) :: [])))
+
+(** val nthb : byte list -> nat -> byte **)
+
+let nthb l i =
+  nth i l Z0
+
+(** val get16 : byte list -> nat -> z **)
+
+let get16 l off =
+  be16 (nthb l off) (nthb l (S off))
+
+(** val get32 : byte list -> nat -> z **)
+
+let get32 l off =
+  be32 (nthb l off) (nthb l (add (S O) off)) (nthb l (add (S (S O)) off))
+    (nthb l (add (S (S (S O))) off))
+
+(** val zlen : 'a1 list -> z **)
+
+let zlen l =
+  Z.of_nat (length l)
+
+(** val bits_of_bytes : byte list -> bool list **)
+
+let rec bits_of_bytes = function
+| [] -> []
+| b :: r ->
+  app
+    (map (fun i -> Z.testbit b (Z.of_nat i)) ((S (S (S (S (S (S (S
+      O))))))) :: ((S (S (S (S (S (S O)))))) :: ((S (S (S (S (S O))))) :: ((S
+      (S (S (S O)))) :: ((S (S (S O))) :: ((S (S O)) :: ((S
+      O) :: (O :: []))))))))) (bits_of_bytes r)
+
+(** val list_eqb : ('a1 -> 'a1 -> bool) -> 'a1 list -> 'a1 list -> bool **)
+
+let rec list_eqb eqb0 a b =
+  match a with
+  | [] -> (match b with
+           | [] -> true
+           | _ :: _ -> false)
+  | x :: a' ->
+    (match b with
+     | [] -> false
+     | y :: b' -> (&&) (eqb0 x y) (list_eqb eqb0 a' b'))
+
+(** val prec_eqb :
+    (((((bool * bool list) * z) * z) * z) * z) -> (((((bool * bool
+    list) * z) * z) * z) * z) -> bool **)
+
+let prec_eqb a b =
+  let (p, sa) = a in
+  let (p0, aa) = p in
+  let (p1, ma) = p0 in
+  let (p2, la) = p1 in
+  let (fa, pa) = p2 in
+  let (p3, sb) = b in
+  let (p4, ab) = p3 in
+  let (p5, mb) = p4 in
+  let (p6, lb) = p5 in
+  let (fb, pb) = p6 in
+  (&&)
+    ((&&)
+      ((&&) ((&&) ((&&) (eqb fa fb) (list_eqb eqb pa pb)) (Z.eqb la lb))
+        (Z.eqb ma mb)) (Z.eqb aa ab)) (Z.eqb sa sb)
+
+(** val krec_eqb :
+    (((z * byte list) * byte list) * z) -> (((z * byte list) * byte
+    list) * z) -> bool **)
+
+let krec_eqb a b =
+  let (p, sa) = a in
+  let (p0, pa) = p in
+  let (aa, ka) = p0 in
+  let (p1, sb) = b in
+  let (p2, pb) = p1 in
+  let (ab, kb) = p2 in
+  (&&)
+    ((&&) ((&&) (Z.eqb aa ab) (list_eqb Z.eqb ka kb)) (list_eqb Z.eqb pa pb))
+    (Z.eqb sa sb)
+
+(** val psrc : (((((bool * bool list) * z) * z) * z) * z) -> z **)
+
+let psrc = function
+| (_, s) -> s
+
+(** val ksrc : (((z * byte list) * byte list) * z) -> z **)
+
+let ksrc = function
+| (_, s) -> s
+
+type ev =
+| EvData of byte list
+| EvErr of z
+| EvWait of z
+| EvStop
+
+type titem =
+| TOpen of bool * z
+| TClose
+| TSend of byte list
+| TSendFail of z
+| TRecvN of z * z
+| TRecvWB of z * z
+| TRecvErr of z * z
+| TRecvStop of z
+| TSleep of z
+| TState of z
+| TPfx of bool * (((((bool * bool list) * z) * z) * z) * z)
+| TKey of bool * (((z * byte list) * byte list) * z)
+| TEnd of z
+| TStopping
+| TDump of z * z list * (((((bool * bool list) * z) * z) * z) * z) list
+   * (((z * byte list) * byte list) * z) list
+
+type sock = { st : z; version : z; session_id : z; req_sess : bool;
+              serial : z; last_update : z; refresh_iv : z; expire_iv : 
+              z; retry_iv : z; iv_mode : z; has_recv : bool; resetting : 
+              bool }
+
+type world = { sk : sock;
+               pfx : (((((bool * bool list) * z) * z) * z) * z) list;
+               keys : (((z * byte list) * byte list) * z) list;
+               evs : ev list; opens : bool list; sends : z list; now : 
+               z; out : titem list }
+
+type exc =
+| XEnd of z
+| XStop
+
+type 'a res =
+| Ok of 'a * world
+| Exc of exc * world
+
+(** val bind :
+    (world -> 'a1 res) -> ('a1 -> world -> 'a2 res) -> world -> 'a2 res **)
+
+let bind m f w =
+  match m w with
+  | Ok (a, w') -> f a w'
+  | Exc (e, w') -> Exc (e, w')
+
+(** val ret : 'a1 -> world -> 'a1 res **)
+
+let ret a w =
+  Ok (a, w)
+
+(** val emit : titem -> world -> unit res **)
+
+let emit t w =
+  Ok ((), { sk = w.sk; pfx = w.pfx; keys = w.keys; evs = w.evs; opens =
+    w.opens; sends = w.sends; now = w.now; out = (t :: w.out) })
+
+(** val get_sk : world -> sock res **)
+
+let get_sk w =
+  Ok (w.sk, w)
+
+(** val set_sk : sock -> world -> unit res **)
+
+let set_sk s w =
+  Ok ((), { sk = s; pfx = w.pfx; keys = w.keys; evs = w.evs; opens = w.opens;
+    sends = w.sends; now = w.now; out = w.out })
+
+(** val get_now : world -> z res **)
+
+let get_now w =
+  Ok (w.now, w)
+
+(** val get_w : world -> world res **)
+
+let get_w w =
+  Ok (w, w)
+
+(** val set_tables :
+    (((((bool * bool list) * z) * z) * z) * z) list -> (((z * byte
+    list) * byte list) * z) list -> world -> unit res **)
+
+let set_tables p k w =
+  Ok ((), { sk = w.sk; pfx = p; keys = k; evs = w.evs; opens = w.opens;
+    sends = w.sends; now = w.now; out = w.out })
+
+(** val upd_st : sock -> z -> sock **)
+
+let upd_st s v =
+  { st = v; version = s.version; session_id = s.session_id; req_sess =
+    s.req_sess; serial = s.serial; last_update = s.last_update; refresh_iv =
+    s.refresh_iv; expire_iv = s.expire_iv; retry_iv = s.retry_iv; iv_mode =
+    s.iv_mode; has_recv = s.has_recv; resetting = s.resetting }
+
+(** val upd_version : sock -> z -> sock **)
+
+let upd_version s v =
+  { st = s.st; version = v; session_id = s.session_id; req_sess = s.req_sess;
+    serial = s.serial; last_update = s.last_update; refresh_iv =
+    s.refresh_iv; expire_iv = s.expire_iv; retry_iv = s.retry_iv; iv_mode =
+    s.iv_mode; has_recv = s.has_recv; resetting = s.resetting }
+
+(** val upd_session : sock -> z -> sock **)
+
+let upd_session s v =
+  { st = s.st; version = s.version; session_id = v; req_sess = s.req_sess;
+    serial = s.serial; last_update = s.last_update; refresh_iv =
+    s.refresh_iv; expire_iv = s.expire_iv; retry_iv = s.retry_iv; iv_mode =
+    s.iv_mode; has_recv = s.has_recv; resetting = s.resetting }
+
+(** val upd_req : sock -> bool -> sock **)
+
+let upd_req s v =
+  { st = s.st; version = s.version; session_id = s.session_id; req_sess = v;
+    serial = s.serial; last_update = s.last_update; refresh_iv =
+    s.refresh_iv; expire_iv = s.expire_iv; retry_iv = s.retry_iv; iv_mode =
+    s.iv_mode; has_recv = s.has_recv; resetting = s.resetting }
+
+(** val upd_serial : sock -> z -> sock **)
+
+let upd_serial s v =
+  { st = s.st; version = s.version; session_id = s.session_id; req_sess =
+    s.req_sess; serial = v; last_update = s.last_update; refresh_iv =
+    s.refresh_iv; expire_iv = s.expire_iv; retry_iv = s.retry_iv; iv_mode =
+    s.iv_mode; has_recv = s.has_recv; resetting = s.resetting }
+
+(** val upd_last : sock -> z -> sock **)
+
+let upd_last s v =
+  { st = s.st; version = s.version; session_id = s.session_id; req_sess =
+    s.req_sess; serial = s.serial; last_update = v; refresh_iv =
+    s.refresh_iv; expire_iv = s.expire_iv; retry_iv = s.retry_iv; iv_mode =
+    s.iv_mode; has_recv = s.has_recv; resetting = s.resetting }
+
+(** val upd_ivs : sock -> z -> z -> z -> sock **)
+
+let upd_ivs s r e t =
+  { st = s.st; version = s.version; session_id = s.session_id; req_sess =
+    s.req_sess; serial = s.serial; last_update = s.last_update; refresh_iv =
+    r; expire_iv = e; retry_iv = t; iv_mode = s.iv_mode; has_recv =
+    s.has_recv; resetting = s.resetting }
+
+(** val upd_hasrecv : sock -> bool -> sock **)
+
+let upd_hasrecv s v =
+  { st = s.st; version = s.version; session_id = s.session_id; req_sess =
+    s.req_sess; serial = s.serial; last_update = s.last_update; refresh_iv =
+    s.refresh_iv; expire_iv = s.expire_iv; retry_iv = s.retry_iv; iv_mode =
+    s.iv_mode; has_recv = v; resetting = s.resetting }
+
+(** val upd_resetting : sock -> bool -> sock **)
+
+let upd_resetting s v =
+  { st = s.st; version = s.version; session_id = s.session_id; req_sess =
+    s.req_sess; serial = s.serial; last_update = s.last_update; refresh_iv =
+    s.refresh_iv; expire_iv = s.expire_iv; retry_iv = s.retry_iv; iv_mode =
+    s.iv_mode; has_recv = s.has_recv; resetting = v }
+
+(** val modify_sk : (sock -> sock) -> world -> unit res **)
+
+let modify_sk f =
+  bind get_sk (fun s -> set_sk (f s))
+
+(** val change_state : z -> world -> unit res **)
+
+let change_state ns =
+  bind get_sk (fun s ->
+    if Z.eqb s.st ns
+    then ret ()
+    else if Z.eqb s.st c_RTR_SHUTDOWN
+         then ret ()
+         else bind (set_sk (upd_st s ns)) (fun _ -> emit (TState ns)))
+
+(** val tr_recv_evs :
+    ev list -> z -> z -> z -> z -> (((z, byte list) sum option * ev
+    list) * z) * titem list **)
+
+let rec tr_recv_evs es len timeout left t =
+  match es with
+  | [] -> (((None, []), t), [])
+  | e :: rest ->
+    (match e with
+     | EvData b ->
+       (match b with
+        | [] -> tr_recv_evs rest len timeout left t
+        | _ :: _ ->
+          let n0 = Z.min len (zlen b) in
+          let got = firstn (Z.to_nat n0) b in
+          let lft = skipn (Z.to_nat n0) b in
+          ((((Some (Inr got)),
+          (match lft with
+           | [] -> rest
+           | _ :: _ -> (EvData lft) :: rest)), t), ((TRecvN (timeout,
+          n0)) :: [])))
+     | EvErr c ->
+       ((((Some (Inl (Z.opp c))), rest), t), ((TRecvErr (timeout,
+         (Z.opp c))) :: []))
+     | EvWait v ->
+       if Z.leb v left
+       then tr_recv_evs rest len timeout (Z.sub left v) (Z.add t v)
+       else ((((Some (Inl (Zneg (XO XH)))), ((EvWait
+              (Z.sub v left)) :: rest)), (Z.add t left)), ((TRecvWB (timeout,
+              (Z.add t left))) :: []))
+     | EvStop ->
+       ((((Some (Inl (Zneg (XI (XI (XO (XO (XO (XI XH))))))))), rest), t),
+         ((TRecvStop timeout) :: [])))
+
+(** val tr_recv : z -> z -> world -> (z, byte list) sum res **)
+
+let tr_recv len timeout w =
+  let left = Z.max Z0 timeout in
+  let (p, tr) = tr_recv_evs w.evs len timeout left w.now in
+  let (p0, t) = p in
+  let (o, es) = p0 in
+  (match o with
+   | Some s ->
+     (match s with
+      | Inl c ->
+        let w' = { sk = w.sk; pfx = w.pfx; keys = w.keys; evs = es; opens =
+          w.opens; sends = w.sends; now = t; out = (app tr w.out) }
+        in
+        if Z.eqb c (Zneg (XI (XI (XO (XO (XO (XI XH)))))))
+        then Exc (XStop, w')
+        else Ok ((Inl c), w')
+      | Inr b ->
+        Ok ((Inr b), { sk = w.sk; pfx = w.pfx; keys = w.keys; evs = es;
+          opens = w.opens; sends = w.sends; now = t; out = (app tr w.out) }))
+   | None ->
+     Exc ((XEnd (Zpos XH)), { sk = w.sk; pfx = w.pfx; keys = w.keys; evs =
+       es; opens = w.opens; sends = w.sends; now = t; out = ((TEnd (Zpos
+       XH)) :: (app tr w.out)) }))
+
+(** val tr_recv_all_loop :
+    nat -> z -> z -> byte list -> world -> (z, byte list) sum res **)
+
+let rec tr_recv_all_loop fuel len end_time acc =
+  match fuel with
+  | O -> ret (Inr acc)
+  | S f ->
+    if Z.geb (zlen acc) len
+    then ret (Inr acc)
+    else bind get_now (fun t ->
+           bind (tr_recv (Z.sub len (zlen acc)) (Z.sub end_time t)) (fun r ->
+             match r with
+             | Inl c -> ret (Inl c)
+             | Inr b -> tr_recv_all_loop f len end_time (app acc b)))
+
+(** val tr_recv_all : z -> z -> world -> (z, byte list) sum res **)
+
+let tr_recv_all len timeout =
+  bind get_now (fun t ->
+    tr_recv_all_loop (Z.to_nat len) len (Z.add t timeout) [])
+
+(** val tr_send : byte list -> world -> z res **)
+
+let tr_send b w =
+  match w.sends with
+  | [] ->
+    let beh = Zpos (XO (XO (XO (XO (XO (XO (XI (XO (XO (XI (XO (XO (XO (XO
+      (XI (XO (XI (XI (XI XH)))))))))))))))))))
+    in
+    let rest = [] in
+    if Z.ltb beh Z0
+    then Ok (beh, { sk = w.sk; pfx = w.pfx; keys = w.keys; evs = w.evs;
+           opens = w.opens; sends = rest; now = w.now; out = ((TSendFail
+           beh) :: w.out) })
+    else let n0 =
+           Z.min (zlen b)
+             (Z.min beh (Zpos (XO (XO (XO (XO (XO (XO (XO (XO (XO (XO (XO (XO
+               (XO XH)))))))))))))))
+         in
+         Ok (n0, { sk = w.sk; pfx = w.pfx; keys = w.keys; evs = w.evs;
+         opens = w.opens; sends = rest; now = w.now; out = ((TSend
+         (firstn (Z.to_nat n0) b)) :: w.out) })
+  | x :: r ->
+    if Z.ltb x Z0
+    then Ok (x, { sk = w.sk; pfx = w.pfx; keys = w.keys; evs = w.evs; opens =
+           w.opens; sends = r; now = w.now; out = ((TSendFail x) :: w.out) })
+    else let n0 =
+           Z.min (zlen b)
+             (Z.min x (Zpos (XO (XO (XO (XO (XO (XO (XO (XO (XO (XO (XO (XO
+               (XO XH)))))))))))))))
+         in
+         Ok (n0, { sk = w.sk; pfx = w.pfx; keys = w.keys; evs = w.evs;
+         opens = w.opens; sends = r; now = w.now; out = ((TSend
+         (firstn (Z.to_nat n0) b)) :: w.out) })
+
+(** val tr_send_all_loop : nat -> byte list -> z -> world -> z res **)
+
+let rec tr_send_all_loop fuel b total =
+  match fuel with
+  | O -> ret total
+  | S f ->
+    (match b with
+     | [] -> ret total
+     | _ :: _ ->
+       bind (tr_send b) (fun r ->
+         if Z.ltb r Z0
+         then ret r
+         else if Z.eqb r Z0
+              then ret (Zneg (XO (XO (XO (XI (XO (XI (XI (XI (XI XH))))))))))
+              else tr_send_all_loop f (skipn (Z.to_nat r) b) (Z.add total r)))
+
+(** val tr_send_all : byte list -> world -> z res **)
+
+let tr_send_all b =
+  tr_send_all_loop (length b) b Z0
+
+(** val tr_open : world -> bool res **)
+
+let tr_open w =
+  match w.opens with
+  | [] ->
+    Exc ((XEnd (Zpos (XO XH))), { sk = w.sk; pfx = w.pfx; keys = w.keys;
+      evs = w.evs; opens = []; sends = w.sends; now = w.now; out = ((TEnd
+      (Zpos (XO XH))) :: w.out) })
+  | b :: r ->
+    Ok (b, { sk = w.sk; pfx = w.pfx; keys = w.keys; evs = w.evs; opens = r;
+      sends = w.sends; now = w.now; out = ((TOpen (b, w.now)) :: w.out) })
+
+(** val tr_close : world -> unit res **)
+
+let tr_close =
+  emit TClose
+
+(** val do_sleep : z -> world -> unit res **)
+
+let do_sleep n0 w =
+  Ok ((), { sk = w.sk; pfx = w.pfx; keys = w.keys; evs = w.evs; opens =
+    w.opens; sends = w.sends; now = (Z.add w.now n0); out = ((TSleep
+    n0) :: w.out) })
+
+(** val send_pdu : byte list -> world -> z res **)
+
+let send_pdu b =
+  bind get_sk (fun s ->
+    if Z.eqb s.st c_RTR_SHUTDOWN
+    then ret (Zneg XH)
+    else bind (tr_send_all b) (fun r ->
+           ret (if Z.gtb r Z0 then Z0 else Zneg XH)))
+
+(** val str_bytes : string -> byte list **)
+
+let rec str_bytes = function
+| EmptyString -> []
+| String (c, r) -> (Z.of_nat (nat_of_ascii c)) :: (str_bytes r)
+
+(** val send_error_pdu : byte list -> z -> byte list -> world -> z res **)
+
+let send_error_pdu enc code text =
+  bind get_sk (fun s ->
+    if (&&) (Z.leb (Zpos (XO XH)) (zlen enc)) (Z.eqb (nthb enc (S O)) c_ERROR)
+    then ret Z0
+    else let len =
+           Z.add (Z.add (Zpos (XO (XO (XO (XO XH))))) (zlen enc)) (zlen text)
+         in
+         send_pdu
+           (app
+             ((Z.modulo s.version (Zpos (XO (XO (XO (XO (XO (XO (XO (XO
+                XH)))))))))) :: (c_ERROR :: []))
+             (app (enc16 code)
+               (app (enc32 len)
+                 (app (enc32 (zlen enc))
+                   (app enc (app (enc32 (zlen text)) text)))))))
+
+(** val send_error_from_host :
+    byte list -> z -> byte list -> world -> z res **)
+
+let send_error_from_host enc code text =
+  if Z.eqb (zlen enc) Z0
+  then send_error_pdu [] code text
+  else if Z.ltb (zlen enc) (Zpos (XO (XO (XO XH))))
+       then ret (Zneg XH)
+       else send_error_pdu enc code text
+
+(** val send_serial_query : world -> z res **)
+
+let send_serial_query =
+  bind get_sk (fun s ->
+    bind
+      (send_pdu
+        (app
+          ((Z.modulo s.version (Zpos (XO (XO (XO (XO (XO (XO (XO (XO
+             XH)))))))))) :: (c_SERIAL_QUERY :: []))
+          (app
+            (enc16
+              (Z.modulo s.session_id (Zpos (XO (XO (XO (XO (XO (XO (XO (XO
+                (XO (XO (XO (XO (XO (XO (XO (XO XH)))))))))))))))))))
+            (app (enc32 (Zpos (XO (XO (XI XH))))) (enc32 s.serial)))))
+      (fun r ->
+      if Z.eqb r Z0
+      then ret Z0
+      else bind (change_state c_RTR_ERROR_TRANSPORT) (fun _ -> ret (Zneg XH))))
+
+(** val send_reset_query : world -> z res **)
+
+let send_reset_query =
+  bind get_sk (fun s ->
+    bind
+      (send_pdu
+        (app
+          ((Z.modulo s.version (Zpos (XO (XO (XO (XO (XO (XO (XO (XO
+             XH)))))))))) :: (c_RESET_QUERY :: []))
+          (app (enc16 Z0) (enc32 (Zpos (XO (XO (XO XH)))))))) (fun r ->
+      if Z.eqb r Z0
+      then ret Z0
+      else bind (change_state c_RTR_ERROR_TRANSPORT) (fun _ -> ret (Zneg XH))))
+
+(** val check_size : byte list -> bool **)
+
+let check_size p =
+  let ver = nthb p O in
+  let ty = nthb p (S O) in
+  let len = get32 p (S (S (S (S O)))) in
+  if Z.eqb ty c_SERIAL_NOTIFY
+  then Z.eqb len sizeof_pdu_serial_notify
+  else if Z.eqb ty c_CACHE_RESPONSE
+       then Z.eqb len sizeof_pdu_cache_response
+       else if Z.eqb ty c_IPV4_PREFIX
+            then Z.eqb len sizeof_pdu_ipv4
+            else if Z.eqb ty c_IPV6_PREFIX
+                 then Z.eqb len sizeof_pdu_ipv6
+                 else if Z.eqb ty c_EOD
+                      then (||)
+                             ((&&) (Z.eqb ver Z0)
+                               (Z.eqb len sizeof_pdu_end_of_data_v0))
+                             ((&&) (Z.eqb ver (Zpos XH))
+                               (Z.eqb len sizeof_pdu_end_of_data_v1))
+                      else if Z.eqb ty c_CACHE_RESET
+                           then Z.eqb len sizeof_pdu_header
+                           else if Z.eqb ty c_ROUTER_KEY
+                                then Z.eqb len sizeof_pdu_router_key
+                                else if Z.eqb ty c_ERROR
+                                     then if Z.ltb len (Zpos (XO (XO (XO (XO
+                                               XH)))))
+                                          then false
+                                          else let el =
+                                                 get32 p (S (S (S (S (S (S (S
+                                                   (S O))))))))
+                                               in
+                                               if Z.ltb len
+                                                    (Z.add (Zpos (XO (XO (XO
+                                                      (XO XH))))) el)
+                                               then false
+                                               else let tl =
+                                                      get32 p
+                                                        (Z.to_nat
+                                                          (Z.add (Zpos (XO
+                                                            (XO (XI XH)))) el))
+                                                    in
+                                                    Z.eqb len
+                                                      (Z.add
+                                                        (Z.add (Zpos (XO (XO
+                                                          (XO (XO XH))))) el)
+                                                        tl)
+                                     else if Z.eqb ty c_SERIAL_QUERY
+                                          then Z.eqb len
+                                                 sizeof_pdu_serial_query
+                                          else if Z.eqb ty c_RESET_QUERY
+                                               then Z.eqb len
+                                                      sizeof_pdu_reset_query
+                                               else false
+
+(** val txt_too_small : byte list **)
+
+let txt_too_small =
+  app
+    (str_bytes (String ((Ascii (true, true, false, false, false, true, true,
+      false)), (String ((Ascii (true, true, true, true, false, true, true,
+      false)), (String ((Ascii (false, true, false, false, true, true, true,
+      false)), (String ((Ascii (false, true, false, false, true, true, true,
+      false)), (String ((Ascii (true, false, true, false, true, true, true,
+      false)), (String ((Ascii (false, false, false, false, true, true, true,
+      false)), (String ((Ascii (false, false, true, false, true, true, true,
+      false)), (String ((Ascii (false, false, false, false, false, true,
+      false, false)), (String ((Ascii (false, false, true, false, false,
+      true, true, false)), (String ((Ascii (true, false, false, false, false,
+      true, true, false)), (String ((Ascii (false, false, true, false, true,
+      true, true, false)), (String ((Ascii (true, false, false, false, false,
+      true, true, false)), (String ((Ascii (false, false, false, false,
+      false, true, false, false)), (String ((Ascii (false, true, false,
+      false, true, true, true, false)), (String ((Ascii (true, false, true,
+      false, false, true, true, false)), (String ((Ascii (true, true, false,
+      false, false, true, true, false)), (String ((Ascii (true, false, true,
+      false, false, true, true, false)), (String ((Ascii (true, false, false,
+      true, false, true, true, false)), (String ((Ascii (false, true, true,
+      false, true, true, true, false)), (String ((Ascii (true, false, true,
+      false, false, true, true, false)), (String ((Ascii (false, false, true,
+      false, false, true, true, false)), (String ((Ascii (false, false, true,
+      true, false, true, false, false)), (String ((Ascii (false, false,
+      false, false, false, true, false, false)), (String ((Ascii (false,
+      false, true, true, false, true, true, false)), (String ((Ascii (true,
+      false, true, false, false, true, true, false)), (String ((Ascii (false,
+      true, true, true, false, true, true, false)), (String ((Ascii (true,
+      true, true, false, false, true, true, false)), (String ((Ascii (false,
+      false, true, false, true, true, true, false)), (String ((Ascii (false,
+      false, false, true, false, true, true, false)), (String ((Ascii (false,
+      false, false, false, false, true, false, false)), (String ((Ascii
+      (false, true, true, false, true, true, true, false)), (String ((Ascii
+      (true, false, false, false, false, true, true, false)), (String ((Ascii
+      (false, false, true, true, false, true, true, false)), (String ((Ascii
+      (true, false, true, false, true, true, true, false)), (String ((Ascii
+      (true, false, true, false, false, true, true, false)), (String ((Ascii
+      (false, false, false, false, false, true, false, false)), (String
+      ((Ascii (true, false, false, true, false, true, true, false)), (String
+      ((Ascii (false, true, true, true, false, true, true, false)), (String
+      ((Ascii (false, false, false, false, false, true, false, false)),
+      (String ((Ascii (false, false, false, false, true, false, true,
+      false)), (String ((Ascii (false, false, true, false, false, false,
+      true, false)), (String ((Ascii (true, false, true, false, true, false,
+      true, false)), (String ((Ascii (false, false, false, false, false,
+      true, false, false)), (String ((Ascii (true, false, false, true, false,
+      true, true, false)), (String ((Ascii (true, true, false, false, true,
+      true, true, false)), (String ((Ascii (false, false, false, false,
+      false, true, false, false)), (String ((Ascii (false, false, true,
+      false, true, true, true, false)), (String ((Ascii (true, true, true,
+      true, false, true, true, false)), (String ((Ascii (true, true, true,
+      true, false, true, true, false)), (String ((Ascii (false, false, false,
+      false, false, true, false, false)), (String ((Ascii (true, true, false,
+      false, true, true, true, false)), (String ((Ascii (true, false, true,
+      true, false, true, true, false)), (String ((Ascii (true, false, false,
+      false, false, true, true, false)), (String ((Ascii (false, false, true,
+      true, false, true, true, false)), (String ((Ascii (false, false, true,
+      true, false, true, true, false)),
+      EmptyString)))))))))))))))))))))))))))))))))))))))))))))))))))))))))))))))))))))))))))))))))))))))))))))))))))))))))))))))
+    (Z0 :: [])
+
+(** val txt_too_big : byte list **)
+
+let txt_too_big =
+  app
+    (str_bytes (String ((Ascii (false, false, false, false, true, false,
+      true, false)), (String ((Ascii (false, false, true, false, false,
+      false, true, false)), (String ((Ascii (true, false, true, false, true,
+      false, true, false)), (String ((Ascii (false, false, false, false,
+      false, true, false, false)), (String ((Ascii (false, false, true,
+      false, true, true, true, false)), (String ((Ascii (true, true, true,
+      true, false, true, true, false)), (String ((Ascii (true, true, true,
+      true, false, true, true, false)), (String ((Ascii (false, false, false,
+      false, false, true, false, false)), (String ((Ascii (false, true,
+      false, false, false, true, true, false)), (String ((Ascii (true, false,
+      false, true, false, true, true, false)), (String ((Ascii (true, true,
+      true, false, false, true, true, false)), (String ((Ascii (false, false,
+      true, true, false, true, false, false)), (String ((Ascii (false, false,
+      false, false, false, true, false, false)), (String ((Ascii (true,
+      false, true, true, false, true, true, false)), (String ((Ascii (true,
+      false, false, false, false, true, true, false)), (String ((Ascii
+      (false, false, false, true, true, true, true, false)), (String ((Ascii
+      (false, true, true, true, false, true, false, false)), (String ((Ascii
+      (false, false, false, false, false, true, false, false)), (String
+      ((Ascii (false, false, false, false, true, false, true, false)),
+      (String ((Ascii (false, false, true, false, false, false, true,
+      false)), (String ((Ascii (true, false, true, false, true, false, true,
+      false)), (String ((Ascii (false, false, false, false, false, true,
+      false, false)), (String ((Ascii (true, true, false, false, true, true,
+      true, false)), (String ((Ascii (true, false, false, true, false, true,
+      true, false)), (String ((Ascii (false, true, false, true, true, true,
+      true, false)), (String ((Ascii (true, false, true, false, false, true,
+      true, false)), (String ((Ascii (false, false, false, false, false,
+      true, false, false)), (String ((Ascii (true, false, false, true, false,
+      true, true, false)), (String ((Ascii (true, true, false, false, true,
+      true, true, false)), (String ((Ascii (false, true, false, true, true,
+      true, false, false)), (String ((Ascii (false, false, false, false,
+      false, true, false, false)), (String ((Ascii (true, true, false, false,
+      true, true, false, false)), (String ((Ascii (false, true, false, false,
+      true, true, false, false)), (String ((Ascii (false, false, true, false,
+      true, true, false, false)), (String ((Ascii (false, false, false, true,
+      true, true, false, false)), (String ((Ascii (false, false, false,
+      false, false, true, false, false)), (String ((Ascii (false, true,
+      false, false, false, true, true, false)), (String ((Ascii (true, false,
+      false, true, true, true, true, false)), (String ((Ascii (false, false,
+      true, false, true, true, true, false)), (String ((Ascii (true, false,
+      true, false, false, true, true, false)), (String ((Ascii (true, true,
+      false, false, true, true, true, false)),
+      EmptyString)))))))))))))))))))))))))))))))))))))))))))))))))))))))))))))))))))))))))))))))))))
+    (Z0 :: [])
+
+(** val recv_err : z -> world -> (z, byte list) sum res **)
+
+let recv_err c =
+  if Z.eqb c (Zneg XH)
+  then bind (change_state c_RTR_ERROR_TRANSPORT) (fun _ ->
+         ret (Inl (Zneg XH)))
+  else if Z.eqb c (Zneg (XO XH))
+       then ret (Inl (Zneg (XO XH)))
+       else if Z.eqb c (Zneg (XI XH))
+            then ret (Inl (Zneg (XI XH)))
+            else if Z.eqb c (Zneg (XO (XO XH)))
+                 then ret (Inl (Zneg (XO (XO XH))))
+                 else bind (change_state c_RTR_ERROR_FATAL) (fun _ ->
+                        ret (Inl (Zneg XH)))
+
+(** val receive_pdu : z -> world -> (z, byte list) sum res **)
+
+let receive_pdu timeout =
+  bind get_sk (fun s0 ->
+    if Z.eqb s0.st c_RTR_SHUTDOWN
+    then ret (Inl (Zneg XH))
+    else bind (tr_recv_all (Zpos (XO (XO (XO XH)))) timeout) (fun r ->
+           match r with
+           | Inl c -> recv_err c
+           | Inr h ->
+             let ver = nthb h O in
+             let ty = nthb h (S O) in
+             let len = get32 h (S (S (S (S O)))) in
+             if Z.ltb len (Zpos (XO (XO (XO XH))))
+             then bind (send_error_pdu h c_CORRUPT_DATA txt_too_small)
+                    (fun _ ->
+                    bind (change_state c_RTR_ERROR_FATAL) (fun _ ->
+                      ret (Inl (Zneg XH))))
+             else if Z.gtb len c_RTR_MAX_PDU_LEN
+                  then bind (send_error_pdu h c_CORRUPT_DATA txt_too_big)
+                         (fun _ ->
+                         bind (change_state c_RTR_ERROR_FATAL) (fun _ ->
+                           ret (Inl (Zneg XH))))
+                  else bind
+                         (bind get_sk (fun s ->
+                           if s.has_recv
+                           then ret ()
+                           else let s1 =
+                                  if (&&)
+                                       ((&&) (Z.eqb s.version (Zpos XH))
+                                         (Z.eqb ver Z0))
+                                       (negb (Z.eqb ty c_ERROR))
+                                  then upd_version s Z0
+                                  else s
+                                in
+                                set_sk (upd_hasrecv s1 true))) (fun _ ->
+                         bind get_sk (fun s ->
+                           if (&&) (negb (Z.eqb ver s.version))
+                                (negb (Z.eqb ty c_ERROR))
+                           then bind
+                                  (send_error_pdu h
+                                    c_UNEXPECTED_PROTOCOL_VERSION [])
+                                  (fun _ -> ret (Inl (Zneg XH)))
+                           else bind
+                                  (if Z.gtb
+                                        (Z.sub len (Zpos (XO (XO (XO XH)))))
+                                        Z0
+                                   then bind get_sk (fun s2 ->
+                                          if Z.eqb s2.st c_RTR_SHUTDOWN
+                                          then ret (Inl (Zneg XH))
+                                          else tr_recv_all
+                                                 (Z.sub len (Zpos (XO (XO (XO
+                                                   XH))))) c_RTR_RECV_TIMEOUT)
+                                   else ret (Inr [])) (fun rest ->
+                                  match rest with
+                                  | Inl c -> recv_err c
+                                  | Inr body ->
+                                    let p = app h body in
+                                    if check_size p
+                                    then ret (Inr p)
+                                    else bind
+                                           (send_error_pdu h c_CORRUPT_DATA
+                                             txt_too_small) (fun _ ->
+                                           bind
+                                             (change_state c_RTR_ERROR_FATAL)
+                                             (fun _ -> ret (Inl (Zneg XH)))))))))
+
+(** val handle_error_pdu : byte list -> world -> unit res **)
+
+let handle_error_pdu p =
+  let code = get16 p (S (S O)) in
+  let ver = nthb p O in
+  if Z.eqb code c_NO_DATA_AVAIL
+  then change_state c_RTR_ERROR_NO_DATA_AVAIL
+  else if Z.eqb code c_UNSUPPORTED_PROTOCOL_VER
+       then bind get_sk (fun s ->
+              if (&&)
+                   ((&&) (Z.leb ver c_RTR_PROTOCOL_MAX_SUPPORTED_VERSION)
+                     (Z.geb ver c_RTR_PROTOCOL_MIN_SUPPORTED_VERSION))
+                   (Z.ltb ver s.version)
+              then bind (set_sk (upd_version s ver)) (fun _ ->
+                     change_state c_RTR_FAST_RECONNECT)
+              else change_state c_RTR_ERROR_FATAL)
+       else change_state c_RTR_ERROR_FATAL
+
+(** val iv_range : z -> z -> z -> z **)
+
+let iv_range v mn mx =
+  if Z.ltb v mn then Zneg XH else if Z.gtb v mx then Zpos XH else Z0
+
+(** val iv_apply : z -> z -> z -> z -> z -> z **)
+
+let iv_apply mode v old mn mx =
+  let r = iv_range v mn mx in
+  if (||) (Z.eqb r Z0) (Z.eqb mode c_RTR_INTERVAL_MODE_ACCEPT_ANY)
+  then v
+  else if Z.eqb mode c_RTR_INTERVAL_MODE_DEFAULT_MIN_MAX
+       then if Z.eqb r (Zneg XH) then mn else mx
+       else old
+
+(** val apply_eod_intervals : sock -> byte list -> sock **)
+
+let apply_eod_intervals s p =
+  if (&&) (Z.eqb (nthb p O) (Zpos XH))
+       (negb (Z.eqb s.iv_mode c_RTR_INTERVAL_MODE_IGNORE_ANY))
+  then let rf = get32 p (S (S (S (S (S (S (S (S (S (S (S (S O)))))))))))) in
+       let rt =
+         get32 p (S (S (S (S (S (S (S (S (S (S (S (S (S (S (S (S
+           O))))))))))))))))
+       in
+       let ex =
+         get32 p (S (S (S (S (S (S (S (S (S (S (S (S (S (S (S (S (S (S (S (S
+           O))))))))))))))))))))
+       in
+       upd_ivs s
+         (iv_apply s.iv_mode rf s.refresh_iv c_RTR_REFRESH_MIN
+           c_RTR_REFRESH_MAX)
+         (iv_apply s.iv_mode ex s.expire_iv c_RTR_EXPIRATION_MIN
+           c_RTR_EXPIRATION_MAX)
+         (iv_apply s.iv_mode rt s.retry_iv c_RTR_RETRY_MIN c_RTR_RETRY_MAX)
+  else s
+
+(** val pmem :
+    (((((bool * bool list) * z) * z) * z) * z) -> (((((bool * bool
+    list) * z) * z) * z) * z) list -> bool **)
+
+let pmem r x =
+  existsb (prec_eqb r) x
+
+(** val kmem :
+    (((z * byte list) * byte list) * z) -> (((z * byte list) * byte
+    list) * z) list -> bool **)
+
+let kmem r x =
+  existsb (krec_eqb r) x
+
+(** val prem :
+    (((((bool * bool list) * z) * z) * z) * z) -> (((((bool * bool
+    list) * z) * z) * z) * z) list -> (((((bool * bool
+    list) * z) * z) * z) * z) list **)
+
+let prem r x =
+  filter (fun x0 -> negb (prec_eqb r x0)) x
+
+(** val krem :
+    (((z * byte list) * byte list) * z) -> (((z * byte list) * byte
+    list) * z) list -> (((z * byte list) * byte list) * z) list **)
+
+let krem r x =
+  filter (fun x0 -> negb (krec_eqb r x0)) x
+
+(** val prec_of_pdu :
+    byte list -> ((((bool * bool list) * z) * z) * z) * z **)
+
+let prec_of_pdu p =
+  let v6 = Z.eqb (nthb p (S O)) c_IPV6_PREFIX in
+  let alen =
+    if v6
+    then S (S (S (S (S (S (S (S (S (S (S (S (S (S (S (S O)))))))))))))))
+    else S (S (S (S O)))
+  in
+  (((((v6,
+  (bits_of_bytes
+    (firstn alen (skipn (S (S (S (S (S (S (S (S (S (S (S (S O)))))))))))) p)))),
+  (nthb p (S (S (S (S (S (S (S (S (S O))))))))))),
+  (nthb p (S (S (S (S (S (S (S (S (S (S O)))))))))))),
+  (get32 p (add (S (S (S (S (S (S (S (S (S (S (S (S O)))))))))))) alen))),
+  (Zpos XH))
+
+(** val krec_of_pdu : byte list -> ((z * byte list) * byte list) * z **)
+
+let krec_of_pdu p =
+  ((((get32 p (S (S (S (S (S (S (S (S (S (S (S (S (S (S (S (S (S (S (S (S (S
+       (S (S (S (S (S (S (S O))))))))))))))))))))))))))))),
+    (firstn (S (S (S (S (S (S (S (S (S (S (S (S (S (S (S (S (S (S (S (S
+      O)))))))))))))))))))) (skipn (S (S (S (S (S (S (S (S O)))))))) p))),
+    (firstn (S (S (S (S (S (S (S (S (S (S (S (S (S (S (S (S (S (S (S (S (S (S
+      (S (S (S (S (S (S (S (S (S (S (S (S (S (S (S (S (S (S (S (S (S (S (S (S
+      (S (S (S (S (S (S (S (S (S (S (S (S (S (S (S (S (S (S (S (S (S (S (S (S
+      (S (S (S (S (S (S (S (S (S (S (S (S (S (S (S (S (S (S (S (S (S
+      O)))))))))))))))))))))))))))))))))))))))))))))))))))))))))))))))))))))))))))))))))))))))))))
+      (skipn (S (S (S (S (S (S (S (S (S (S (S (S (S (S (S (S (S (S (S (S (S
+        (S (S (S (S (S (S (S (S (S (S (S O)))))))))))))))))))))))))))))))) p))),
+    (Zpos XH))
+
+(** val upd_pfx :
+    bool -> z -> (((((bool * bool list) * z) * z) * z) * z) ->
+    (((((bool * bool list) * z) * z) * z) * z) list -> ((((((bool * bool
+    list) * z) * z) * z) * z) list * z) * titem list **)
+
+let upd_pfx live flags r x =
+  if Z.eqb flags (Zpos XH)
+  then if pmem r x
+       then ((x, (Zpos XH)), [])
+       else (((app x (r :: [])), Z0),
+              (if live then (TPfx (true, r)) :: [] else []))
+  else if Z.eqb flags Z0
+       then if pmem r x
+            then (((prem r x), Z0),
+                   (if live then (TPfx (false, r)) :: [] else []))
+            else ((x, (Zpos (XO XH))), [])
+       else ((x, (Zpos (XI XH))), [])
+
+(** val upd_key :
+    bool -> z -> (((z * byte list) * byte list) * z) -> (((z * byte
+    list) * byte list) * z) list -> ((((z * byte list) * byte list) * z)
+    list * z) * titem list **)
+
+let upd_key live flags r x =
+  if Z.eqb flags (Zpos XH)
+  then if kmem r x
+       then ((x, (Zpos XH)), [])
+       else (((app x (r :: [])), Z0),
+              (if live then (TKey (true, r)) :: [] else []))
+  else if Z.eqb flags Z0
+       then if kmem r x
+            then (((krem r x), Z0),
+                   (if live then (TKey (false, r)) :: [] else []))
+            else ((x, (Zpos (XO XH))), [])
+       else ((x, (Zpos (XI XH))), [])
+
+(** val pdu_flags : byte list -> z **)
+
+let pdu_flags p =
+  if Z.eqb (nthb p (S O)) c_ROUTER_KEY
+  then nthb p (S (S O))
+  else nthb p (S (S (S (S (S (S (S (S O))))))))
+
+(** val txt_pfx_flags : byte list **)
+
+let txt_pfx_flags =
+  app
+    (str_bytes (String ((Ascii (false, false, false, false, true, false,
+      true, false)), (String ((Ascii (false, true, false, false, true, true,
+      true, false)), (String ((Ascii (true, false, true, false, false, true,
+      true, false)), (String ((Ascii (false, true, true, false, false, true,
+      true, false)), (String ((Ascii (true, false, false, true, false, true,
+      true, false)), (String ((Ascii (false, false, false, true, true, true,
+      true, false)), (String ((Ascii (false, false, false, false, false,
+      true, false, false)), (String ((Ascii (false, false, false, false,
+      true, false, true, false)), (String ((Ascii (false, false, true, false,
+      false, false, true, false)), (String ((Ascii (true, false, true, false,
+      true, false, true, false)), (String ((Ascii (false, false, false,
+      false, false, true, false, false)), (String ((Ascii (true, true, true,
+      false, true, true, true, false)), (String ((Ascii (true, false, false,
+      true, false, true, true, false)), (String ((Ascii (false, false, true,
+      false, true, true, true, false)), (String ((Ascii (false, false, false,
+      true, false, true, true, false)), (String ((Ascii (false, false, false,
+      false, false, true, false, false)), (String ((Ascii (true, false,
+      false, true, false, true, true, false)), (String ((Ascii (false, true,
+      true, true, false, true, true, false)), (String ((Ascii (false, true,
+      true, false, true, true, true, false)), (String ((Ascii (true, false,
+      false, false, false, true, true, false)), (String ((Ascii (false,
+      false, true, true, false, true, true, false)), (String ((Ascii (true,
+      false, false, true, false, true, true, false)), (String ((Ascii (false,
+      false, true, false, false, true, true, false)), (String ((Ascii (false,
+      false, false, false, false, true, false, false)), (String ((Ascii
+      (false, true, true, false, false, true, true, false)), (String ((Ascii
+      (false, false, true, true, false, true, true, false)), (String ((Ascii
+      (true, false, false, false, false, true, true, false)), (String ((Ascii
+      (true, true, true, false, false, true, true, false)), (String ((Ascii
+      (true, true, false, false, true, true, true, false)), (String ((Ascii
+      (false, false, false, false, false, true, false, false)), (String
+      ((Ascii (false, true, true, false, true, true, true, false)), (String
+      ((Ascii (true, false, false, false, false, true, true, false)), (String
+      ((Ascii (false, false, true, true, false, true, true, false)), (String
+      ((Ascii (true, false, true, false, true, true, true, false)), (String
+      ((Ascii (true, false, true, false, false, true, true, false)), (String
+      ((Ascii (false, false, false, false, false, true, false, false)),
+      (String ((Ascii (false, true, false, false, true, true, true, false)),
+      (String ((Ascii (true, false, true, false, false, true, true, false)),
+      (String ((Ascii (true, true, false, false, false, true, true, false)),
+      (String ((Ascii (true, false, true, false, false, true, true, false)),
+      (String ((Ascii (true, false, false, true, false, true, true, false)),
+      (String ((Ascii (false, true, true, false, true, true, true, false)),
+      (String ((Ascii (true, false, true, false, false, true, true, false)),
+      (String ((Ascii (false, false, true, false, false, true, true, false)),
+      EmptyString)))))))))))))))))))))))))))))))))))))))))))))))))))))))))))))))))))))))))))))))))))))))))
+    (Z0 :: [])
+
+(** val txt_key_flags : byte list **)
+
+let txt_key_flags =
+  app
+    (str_bytes (String ((Ascii (false, true, false, false, true, false, true,
+      false)), (String ((Ascii (true, true, true, true, false, true, true,
+      false)), (String ((Ascii (true, false, true, false, true, true, true,
+      false)), (String ((Ascii (false, false, true, false, true, true, true,
+      false)), (String ((Ascii (true, false, true, false, false, true, true,
+      false)), (String ((Ascii (false, true, false, false, true, true, true,
+      false)), (String ((Ascii (false, false, false, false, false, true,
+      false, false)), (String ((Ascii (true, true, false, true, false, false,
+      true, false)), (String ((Ascii (true, false, true, false, false, true,
+      true, false)), (String ((Ascii (true, false, false, true, true, true,
+      true, false)), (String ((Ascii (false, false, false, false, false,
+      true, false, false)), (String ((Ascii (false, false, false, false,
+      true, false, true, false)), (String ((Ascii (false, false, true, false,
+      false, false, true, false)), (String ((Ascii (true, false, true, false,
+      true, false, true, false)), (String ((Ascii (false, false, false,
+      false, false, true, false, false)), (String ((Ascii (true, true, true,
+      false, true, true, true, false)), (String ((Ascii (true, false, false,
+      true, false, true, true, false)), (String ((Ascii (false, false, true,
+      false, true, true, true, false)), (String ((Ascii (false, false, false,
+      true, false, true, true, false)), (String ((Ascii (false, false, false,
+      false, false, true, false, false)), (String ((Ascii (true, false,
+      false, true, false, true, true, false)), (String ((Ascii (false, true,
+      true, true, false, true, true, false)), (String ((Ascii (false, true,
+      true, false, true, true, true, false)), (String ((Ascii (true, false,
+      false, false, false, true, true, false)), (String ((Ascii (false,
+      false, true, true, false, true, true, false)), (String ((Ascii (true,
+      false, false, true, false, true, true, false)), (String ((Ascii (false,
+      false, true, false, false, true, true, false)), (String ((Ascii (false,
+      false, false, false, false, true, false, false)), (String ((Ascii
+      (false, true, true, false, false, true, true, false)), (String ((Ascii
+      (false, false, true, true, false, true, true, false)), (String ((Ascii
+      (true, false, false, false, false, true, true, false)), (String ((Ascii
+      (true, true, true, false, false, true, true, false)), (String ((Ascii
+      (true, true, false, false, true, true, true, false)), (String ((Ascii
+      (false, false, false, false, false, true, false, false)), (String
+      ((Ascii (false, true, true, false, true, true, true, false)), (String
+      ((Ascii (true, false, false, false, false, true, true, false)), (String
+      ((Ascii (false, false, true, true, false, true, true, false)), (String
+      ((Ascii (true, false, true, false, true, true, true, false)), (String
+      ((Ascii (true, false, true, false, false, true, true, false)), (String
+      ((Ascii (false, false, false, false, false, true, false, false)),
+      (String ((Ascii (false, true, false, false, true, true, true, false)),
+      (String ((Ascii (true, false, true, false, false, true, true, false)),
+      (String ((Ascii (true, true, false, false, false, true, true, false)),
+      (String ((Ascii (true, false, true, false, false, true, true, false)),
+      (String ((Ascii (true, false, false, true, false, true, true, false)),
+      (String ((Ascii (false, true, true, false, true, true, true, false)),
+      (String ((Ascii (true, false, true, false, false, true, true, false)),
+      (String ((Ascii (false, false, true, false, false, true, true, false)),
+      EmptyString)))))))))))))))))))))))))))))))))))))))))))))))))))))))))))))))))))))))))))))))))))))))))))))))))
+    (Z0 :: [])
+
+(** val report_update_failure :
+    byte list -> z -> bool -> world -> unit res **)
+
+let report_update_failure p code is_key =
+  if Z.eqb code (Zpos (XI XH))
+  then bind
+         (send_error_from_host p c_CORRUPT_DATA
+           (if is_key then txt_key_flags else txt_pfx_flags)) (fun _ ->
+         ret ())
+  else if Z.eqb code (Zpos XH)
+       then bind (send_error_from_host p c_DUPLICATE_ANNOUNCEMENT [])
+              (fun _ -> change_state c_RTR_ERROR_FATAL)
+       else bind (send_error_from_host p c_WITHDRAWAL_OF_UNKNOWN_RECORD [])
+              (fun _ -> change_state c_RTR_ERROR_FATAL)
+
+(** val emit_all : titem list -> world -> unit res **)
+
+let emit_all l w =
+  Ok ((), { sk = w.sk; pfx = w.pfx; keys = w.keys; evs = w.evs; opens =
+    w.opens; sends = w.sends; now = w.now; out = (app (rev l) w.out) })
+
+(** val apply_pfx :
+    bool -> byte list list -> (((((bool * bool list) * z) * z) * z) * z) list
+    -> byte list list -> ((((((bool * bool list) * z) * z) * z) * z)
+    list * titem list) * ((byte list * z) * byte list list) option **)
+
+let rec apply_pfx live ps x done0 =
+  match ps with
+  | [] -> ((x, []), None)
+  | p :: rest ->
+    let (p0, t) = upd_pfx live (pdu_flags p) (prec_of_pdu p) x in
+    let (x', c) = p0 in
+    if Z.eqb c Z0
+    then let (p1, f) = apply_pfx live rest x' (p :: done0) in
+         let (x2, t2) = p1 in ((x2, (app t t2)), f)
+    else ((x, []), (Some ((p, c), done0)))
+
+(** val apply_keys :
+    bool -> byte list list -> (((z * byte list) * byte list) * z) list ->
+    byte list list -> ((((z * byte list) * byte list) * z) list * titem
+    list) * ((byte list * z) * byte list list) option **)
+
+let rec apply_keys live ps x done0 =
+  match ps with
+  | [] -> ((x, []), None)
+  | p :: rest ->
+    let (p0, t) = upd_key live (pdu_flags p) (krec_of_pdu p) x in
+    let (x', c) = p0 in
+    if Z.eqb c Z0
+    then let (p1, f) = apply_keys live rest x' (p :: done0) in
+         let (x2, t2) = p1 in ((x2, (app t t2)), f)
+    else ((x, []), (Some ((p, c), done0)))
+
+(** val undo_pfx :
+    bool -> byte list list -> (((((bool * bool list) * z) * z) * z) * z) list
+    -> ((((((bool * bool list) * z) * z) * z) * z) list * titem list) * bool **)
+
+let rec undo_pfx live done0 x =
+  match done0 with
+  | [] -> ((x, []), true)
+  | p :: rest ->
+    let (p0, t) =
+      upd_pfx live (Z.sub (Zpos XH) (pdu_flags p)) (prec_of_pdu p) x
+    in
+    let (x', c) = p0 in
+    if Z.eqb c Z0
+    then let (p1, ok) = undo_pfx live rest x' in
+         let (x2, t2) = p1 in ((x2, (app t t2)), ok)
+    else ((x, []), false)
+
+(** val undo_keys :
+    bool -> byte list list -> (((z * byte list) * byte list) * z) list ->
+    ((((z * byte list) * byte list) * z) list * titem list) * bool **)
+
+let rec undo_keys live done0 x =
+  match done0 with
+  | [] -> ((x, []), true)
+  | p :: rest ->
+    let (p0, t) =
+      upd_key live (Z.sub (Zpos XH) (pdu_flags p)) (krec_of_pdu p) x
+    in
+    let (x', c) = p0 in
+    if Z.eqb c Z0
+    then let (p1, ok) = undo_keys live rest x' in
+         let (x2, t2) = p1 in ((x2, (app t t2)), ok)
+    else ((x, []), false)
+
+(** val spki_src_remove_notifies : bool **)
+
+let spki_src_remove_notifies =
+  false
+
+(** val src_remove_all : world -> unit res **)
+
+let src_remove_all =
+  bind get_w (fun w ->
+    let gp = filter (fun r -> Z.eqb (psrc r) (Zpos XH)) w.pfx in
+    let gk = filter (fun r -> Z.eqb (ksrc r) (Zpos XH)) w.keys in
+    bind
+      (set_tables (filter (fun r -> negb (Z.eqb (psrc r) (Zpos XH))) w.pfx)
+        w.keys) (fun _ ->
+      bind (emit_all (map (fun x -> TPfx (false, x)) gp)) (fun _ ->
+        bind
+          (set_tables
+            (filter (fun r -> negb (Z.eqb (psrc r) (Zpos XH))) w.pfx)
+            (filter (fun r -> negb (Z.eqb (ksrc r) (Zpos XH))) w.keys))
+          (fun _ ->
+          emit_all
+            (if spki_src_remove_notifies
+             then map (fun x -> TKey (false, x)) gk
+             else [])))))
+
+(** val dec_digits : nat -> z -> byte list -> byte list **)
+
+let rec dec_digits fuel v acc =
+  match fuel with
+  | O -> acc
+  | S f ->
+    let acc' =
+      (Z.add (Zpos (XO (XO (XO (XO (XI XH))))))
+        (Z.modulo v (Zpos (XO (XI (XO XH)))))) :: acc
+    in
+    if Z.eqb (Z.div v (Zpos (XO (XI (XO XH))))) Z0
+    then acc'
+    else dec_digits f (Z.div v (Zpos (XO (XI (XO XH))))) acc'
+
+(** val dec : z -> byte list **)
+
+let dec v =
+  dec_digits (S (S (S (S (S (S (S (S (S (S (S (S O)))))))))))) v []
+
+(** val txt_eod_session : z -> z -> byte list **)
+
+let txt_eod_session a b =
+  app
+    (str_bytes (String ((Ascii (true, false, true, false, false, false, true,
+      false)), (String ((Ascii (false, false, false, true, true, true, true,
+      false)), (String ((Ascii (false, false, false, false, true, true, true,
+      false)), (String ((Ascii (true, false, true, false, false, true, true,
+      false)), (String ((Ascii (true, true, false, false, false, true, true,
+      false)), (String ((Ascii (false, false, true, false, true, true, true,
+      false)), (String ((Ascii (true, false, true, false, false, true, true,
+      false)), (String ((Ascii (false, false, true, false, false, true, true,
+      false)), (String ((Ascii (false, false, false, false, false, true,
+      false, false)), (String ((Ascii (true, true, false, false, true, true,
+      true, false)), (String ((Ascii (true, false, true, false, false, true,
+      true, false)), (String ((Ascii (true, true, false, false, true, true,
+      true, false)), (String ((Ascii (true, true, false, false, true, true,
+      true, false)), (String ((Ascii (true, false, false, true, false, true,
+      true, false)), (String ((Ascii (true, true, true, true, false, true,
+      true, false)), (String ((Ascii (false, true, true, true, false, true,
+      true, false)), (String ((Ascii (true, true, true, true, true, false,
+      true, false)), (String ((Ascii (true, false, false, true, false, true,
+      true, false)), (String ((Ascii (false, false, true, false, false, true,
+      true, false)), (String ((Ascii (false, true, false, true, true, true,
+      false, false)), (String ((Ascii (false, false, false, false, false,
+      true, false, false)),
+      EmptyString)))))))))))))))))))))))))))))))))))))))))))
+    (app (dec a)
+      (app
+        (str_bytes (String ((Ascii (false, false, true, true, false, true,
+          false, false)), (String ((Ascii (false, false, false, false, false,
+          true, false, false)), (String ((Ascii (false, true, false, false,
+          true, true, true, false)), (String ((Ascii (true, false, true,
+          false, false, true, true, false)), (String ((Ascii (true, true,
+          false, false, false, true, true, false)), (String ((Ascii (true,
+          false, true, false, false, true, true, false)), (String ((Ascii
+          (true, false, false, true, false, true, true, false)), (String
+          ((Ascii (false, true, true, false, true, true, true, false)),
+          (String ((Ascii (true, false, true, false, false, true, true,
+          false)), (String ((Ascii (false, false, true, false, false, true,
+          true, false)), (String ((Ascii (false, false, false, false, false,
+          true, false, false)), (String ((Ascii (true, true, false, false,
+          true, true, true, false)), (String ((Ascii (true, false, true,
+          false, false, true, true, false)), (String ((Ascii (true, true,
+          false, false, true, true, true, false)), (String ((Ascii (true,
+          true, false, false, true, true, true, false)), (String ((Ascii
+          (true, false, false, true, false, true, true, false)), (String
+          ((Ascii (true, true, true, true, false, true, true, false)),
+          (String ((Ascii (false, true, true, true, false, true, true,
+          false)), (String ((Ascii (true, true, true, true, true, false,
+          true, false)), (String ((Ascii (true, false, false, true, false,
+          true, true, false)), (String ((Ascii (false, false, true, false,
+          false, true, true, false)), (String ((Ascii (false, true, true,
+          true, false, true, false, false)), (String ((Ascii (false, false,
+          false, false, false, true, false, false)),
+          EmptyString)))))))))))))))))))))))))))))))))))))))))))))))
+        (app (dec b)
+          (app
+            (str_bytes (String ((Ascii (false, false, false, false, false,
+              true, false, false)), (String ((Ascii (true, false, false,
+              true, false, true, true, false)), (String ((Ascii (false, true,
+              true, true, false, true, true, false)), (String ((Ascii (false,
+              false, false, false, false, true, false, false)), (String
+              ((Ascii (true, false, true, false, false, false, true, false)),
+              (String ((Ascii (true, true, true, true, false, false, true,
+              false)), (String ((Ascii (false, false, true, false, false,
+              false, true, false)), (String ((Ascii (false, false, false,
+              false, false, true, false, false)), (String ((Ascii (false,
+              false, false, false, true, false, true, false)), (String
+              ((Ascii (false, false, true, false, false, false, true,
+              false)), (String ((Ascii (true, false, true, false, true,
+              false, true, false)), EmptyString)))))))))))))))))))))))
+            (Z0 :: [])))))
+
+(** val purge_after_failed_undo : world -> unit res **)
+
+let purge_after_failed_undo =
+  bind src_remove_all (fun _ -> modify_sk (fun s -> upd_req s true))
+
+(** val process_eod :
+    byte list -> byte list list -> byte list list -> byte list list -> world
+    -> z res **)
+
+let process_eod p v4 v6 ks =
+  bind get_sk (fun s ->
+    if negb (Z.eqb (get16 p (S (S O))) s.session_id)
+    then bind
+           (send_error_from_host p c_CORRUPT_DATA
+             (txt_eod_session s.session_id (get16 p (S (S O))))) (fun _ ->
+           bind (change_state c_RTR_ERROR_FATAL) (fun _ -> ret (Zneg XH)))
+    else bind (set_sk (apply_eod_intervals s p)) (fun _ ->
+           bind get_w (fun w ->
+             let reset = s.resetting in
+             let live = negb reset in
+             let p0 =
+               if reset
+               then filter (fun r -> negb (Z.eqb (psrc r) (Zpos XH))) w.pfx
+               else w.pfx
+             in
+             let k0 =
+               if reset
+               then filter (fun r -> negb (Z.eqb (ksrc r) (Zpos XH))) w.keys
+               else w.keys
+             in
+             let (p1, f1) = apply_pfx live v4 p0 [] in
+             let (p2, t1) = p1 in
+             (match f1 with
+              | Some p3 ->
+                let (p4, done0) = p3 in
+                let (bad, c) = p4 in
+                bind (emit_all t1) (fun _ ->
+                  bind (if live then set_tables p2 w.keys else ret ())
+                    (fun _ ->
+                    bind (report_update_failure bad c false) (fun _ ->
+                      let (p5, ok) = undo_pfx live done0 p2 in
+                      let (p6, t2) = p5 in
+                      bind (emit_all t2) (fun _ ->
+                        bind (if live then set_tables p6 w.keys else ret ())
+                          (fun _ ->
+                          bind
+                            (if ok then ret () else purge_after_failed_undo)
+                            (fun _ ->
+                            bind (change_state c_RTR_ERROR_FATAL) (fun _ ->
+                              ret (Zneg XH))))))))
+              | None ->
+                bind (emit_all t1) (fun _ ->
+                  bind (if live then set_tables p2 w.keys else ret ())
+                    (fun _ ->
+                    let (p3, f3) = apply_pfx live v6 p2 [] in
+                    let (p4, t3) = p3 in
+                    (match f3 with
+                     | Some p5 ->
+                       let (p6, done0) = p5 in
+                       let (bad, c) = p6 in
+                       bind (emit_all t3) (fun _ ->
+                         bind (if live then set_tables p4 w.keys else ret ())
+                           (fun _ ->
+                           bind (report_update_failure bad c false) (fun _ ->
+                             let (p7, ok) =
+                               undo_pfx live (app done0 (rev v4)) p4
+                             in
+                             let (p8, t5) = p7 in
+                             bind (emit_all t5) (fun _ ->
+                               bind
+                                 (if live
+                                  then set_tables p8 w.keys
+                                  else ret ()) (fun _ ->
+                                 bind
+                                   (if ok
+                                    then ret ()
+                                    else purge_after_failed_undo) (fun _ ->
+                                   bind (change_state c_RTR_ERROR_FATAL)
+                                     (fun _ -> ret (Zneg XH))))))))
+                     | None ->
+                       bind (emit_all t3) (fun _ ->
+                         bind (if live then set_tables p4 w.keys else ret ())
+                           (fun _ ->
+                           let (p5, f5) = apply_keys live ks k0 [] in
+                           let (k1, t5) = p5 in
+                           (match f5 with
+                            | Some p6 ->
+                              let (p7, done0) = p6 in
+                              let (bad, c) = p7 in
+                              bind (emit_all t5) (fun _ ->
+                                bind
+                                  (if live then set_tables p4 k1 else ret ())
+                                  (fun _ ->
+                                  bind (report_update_failure bad c true)
+                                    (fun _ ->
+                                    let (p8, ok1) = undo_keys live done0 k1 in
+                                    let (k2, t7) = p8 in
+                                    bind (emit_all t7) (fun _ ->
+                                      let (p9, ok2) =
+                                        if ok1
+                                        then undo_pfx live
+                                               (app (rev v6) (rev v4)) p4
+                                        else ((p4, []), false)
+                                      in
+                                      let (p10, t8) = p9 in
+                                      bind (emit_all t8) (fun _ ->
+                                        bind
+                                          (if live
+                                           then set_tables p10 k2
+                                           else ret ()) (fun _ ->
+                                          bind
+                                            (if ok2
+                                             then ret ()
+                                             else purge_after_failed_undo)
+                                            (fun _ ->
+                                            bind
+                                              (change_state c_RTR_ERROR_FATAL)
+                                              (fun _ -> ret (Zneg XH)))))))))
+                            | None ->
+                              bind (emit_all t5) (fun _ ->
+                                bind
+                                  (if live then set_tables p4 k1 else ret ())
+                                  (fun _ ->
+                                  bind
+                                    (if reset
+                                     then let oldp =
+                                            filter (fun r ->
+                                              Z.eqb (psrc r) (Zpos XH)) w.pfx
+                                          in
+                                          let newp =
+                                            filter (fun r ->
+                                              Z.eqb (psrc r) (Zpos XH)) p4
+                                          in
+                                          let oldk =
+                                            filter (fun r ->
+                                              Z.eqb (ksrc r) (Zpos XH)) w.keys
+                                          in
+                                          let newk =
+                                            filter (fun r ->
+                                              Z.eqb (ksrc r) (Zpos XH)) k1
+                                          in
+                                          bind (set_tables p4 k1) (fun _ ->
+                                            bind
+                                              (emit_all
+                                                (app
+                                                  (map (fun x -> TPfx (true,
+                                                    x))
+                                                    (filter (fun r ->
+                                                      negb (pmem r oldp))
+                                                      newp))
+                                                  (map (fun x -> TPfx (false,
+                                                    x))
+                                                    (filter (fun r ->
+                                                      negb (pmem r newp))
+                                                      oldp)))) (fun _ ->
+                                              emit_all
+                                                (app
+                                                  (map (fun x -> TKey (true,
+                                                    x))
+                                                    (filter (fun r ->
+                                                      negb (kmem r oldk))
+                                                      newk))
+                                                  (map (fun x -> TKey (false,
+                                                    x))
+                                                    (filter (fun r ->
+                                                      negb (kmem r newk))
+                                                      oldk)))))
+                                     else ret ()) (fun _ ->
+                                    bind
+                                      (modify_sk (fun s0 ->
+                                        upd_serial s0
+                                          (get32 p (S (S (S (S (S (S (S (S
+                                            O))))))))))) (fun _ -> ret Z0))))))))))))))
+
+(** val prefix_lengths_valid : byte list -> bool **)
+
+let prefix_lengths_valid p =
+  let bits =
+    if Z.eqb (nthb p (S O)) c_IPV4_PREFIX
+    then Zpos (XO (XO (XO (XO (XO XH)))))
+    else Zpos (XO (XO (XO (XO (XO (XO (XO XH)))))))
+  in
+  (&&) (Z.leb (nthb p (S (S (S (S (S (S (S (S (S O)))))))))) bits)
+    (Z.leb (nthb p (S (S (S (S (S (S (S (S (S (S O))))))))))) bits)
+
+(** val txt_pfx_len : byte list **)
+
+let txt_pfx_len =
+  app
+    (str_bytes (String ((Ascii (false, false, false, false, true, false,
+      true, false)), (String ((Ascii (false, true, false, false, true, true,
+      true, false)), (String ((Ascii (true, false, true, false, false, true,
+      true, false)), (String ((Ascii (false, true, true, false, false, true,
+      true, false)), (String ((Ascii (true, false, false, true, false, true,
+      true, false)), (String ((Ascii (false, false, false, true, true, true,
+      true, false)), (String ((Ascii (false, false, false, false, false,
+      true, false, false)), (String ((Ascii (false, false, false, false,
+      true, false, true, false)), (String ((Ascii (false, false, true, false,
+      false, false, true, false)), (String ((Ascii (true, false, true, false,
+      true, false, true, false)), (String ((Ascii (false, false, false,
+      false, false, true, false, false)), (String ((Ascii (true, true, true,
+      false, true, true, true, false)), (String ((Ascii (true, false, false,
+      true, false, true, true, false)), (String ((Ascii (false, false, true,
+      false, true, true, true, false)), (String ((Ascii (false, false, false,
+      true, false, true, true, false)), (String ((Ascii (false, false, false,
+      false, false, true, false, false)), (String ((Ascii (true, false,
+      false, false, false, true, true, false)), (String ((Ascii (false,
+      false, false, false, false, true, false, false)), (String ((Ascii
+      (false, false, false, false, true, true, true, false)), (String ((Ascii
+      (false, true, false, false, true, true, true, false)), (String ((Ascii
+      (true, false, true, false, false, true, true, false)), (String ((Ascii
+      (false, true, true, false, false, true, true, false)), (String ((Ascii
+      (true, false, false, true, false, true, true, false)), (String ((Ascii
+      (false, false, false, true, true, true, true, false)), (String ((Ascii
+      (false, false, false, false, false, true, false, false)), (String
+      ((Ascii (false, false, true, true, false, true, true, false)), (String
+      ((Ascii (true, false, true, false, false, true, true, false)), (String
+      ((Ascii (false, true, true, true, false, true, true, false)), (String
+      ((Ascii (true, true, true, false, false, true, true, false)), (String
+      ((Ascii (false, false, true, false, true, true, true, false)), (String
+      ((Ascii (false, false, false, true, false, true, true, false)), (String
+      ((Ascii (false, false, false, false, false, true, false, false)),
+      (String ((Ascii (true, false, true, false, false, true, true, false)),
+      (String ((Ascii (false, false, false, true, true, true, true, false)),
+      (String ((Ascii (true, true, false, false, false, true, true, false)),
+      (String ((Ascii (true, false, true, false, false, true, true, false)),
+      (String ((Ascii (true, false, true, false, false, true, true, false)),
+      (String ((Ascii (false, false, true, false, false, true, true, false)),
+      (String ((Ascii (true, false, false, true, false, true, true, false)),
+      (String ((Ascii (false, true, true, true, false, true, true, false)),
+      (String ((Ascii (true, true, true, false, false, true, true, false)),
+      (String ((Ascii (false, false, false, false, false, true, false,
+      false)), (String ((Ascii (false, false, true, false, true, true, true,
+      false)), (String ((Ascii (false, false, false, true, false, true, true,
+      false)), (String ((Ascii (true, false, true, false, false, true, true,
+      false)), (String ((Ascii (false, false, false, false, false, true,
+      false, false)), (String ((Ascii (true, false, false, false, false,
+      true, true, false)), (String ((Ascii (false, false, true, false, false,
+      true, true, false)), (String ((Ascii (false, false, true, false, false,
+      true, true, false)), (String ((Ascii (false, true, false, false, true,
+      true, true, false)), (String ((Ascii (true, false, true, false, false,
+      true, true, false)), (String ((Ascii (true, true, false, false, true,
+      true, true, false)), (String ((Ascii (true, true, false, false, true,
+      true, true, false)), (String ((Ascii (false, false, false, false,
+      false, true, false, false)), (String ((Ascii (true, true, false, false,
+      true, true, true, false)), (String ((Ascii (true, false, false, true,
+      false, true, true, false)), (String ((Ascii (false, true, false, true,
+      true, true, true, false)), (String ((Ascii (true, false, true, false,
+      false, true, true, false)), (String ((Ascii (false, false, false,
+      false, false, true, false, false)), (String ((Ascii (false, true,
+      false, false, true, true, true, false)), (String ((Ascii (true, false,
+      true, false, false, true, true, false)), (String ((Ascii (true, true,
+      false, false, false, true, true, false)), (String ((Ascii (true, false,
+      true, false, false, true, true, false)), (String ((Ascii (true, false,
+      false, true, false, true, true, false)), (String ((Ascii (false, true,
+      true, false, true, true, true, false)), (String ((Ascii (true, false,
+      true, false, false, true, true, false)), (String ((Ascii (false, false,
+      true, false, false, true, true, false)),
+      EmptyString)))))))))))))))))))))))))))))))))))))))))))))))))))))))))))))))))))))))))))))))))))))))))))))))))))))))))))))))))))))))))))))))))))))))
+    (Z0 :: [])
+
+(** val txt_unexp_store : byte list **)
+
+let txt_unexp_store =
+  app
+    (str_bytes (String ((Ascii (true, false, true, false, true, false, true,
+      false)), (String ((Ascii (false, true, true, true, false, true, true,
+      false)), (String ((Ascii (true, false, true, false, false, true, true,
+      false)), (String ((Ascii (false, false, false, true, true, true, true,
+      false)), (String ((Ascii (false, false, false, false, true, true, true,
+      false)), (String ((Ascii (true, false, true, false, false, true, true,
+      false)), (String ((Ascii (true, true, false, false, false, true, true,
+      false)), (String ((Ascii (false, false, true, false, true, true, true,
+      false)), (String ((Ascii (true, false, true, false, false, true, true,
+      false)), (String ((Ascii (false, false, true, false, false, true, true,
+      false)), (String ((Ascii (false, false, false, false, false, true,
+      false, false)), (String ((Ascii (false, false, false, false, true,
+      false, true, false)), (String ((Ascii (false, false, true, false,
+      false, false, true, false)), (String ((Ascii (true, false, true, false,
+      true, false, true, false)), (String ((Ascii (false, false, false,
+      false, false, true, false, false)), (String ((Ascii (false, true,
+      false, false, true, true, true, false)), (String ((Ascii (true, false,
+      true, false, false, true, true, false)), (String ((Ascii (true, true,
+      false, false, false, true, true, false)), (String ((Ascii (true, false,
+      true, false, false, true, true, false)), (String ((Ascii (true, false,
+      false, true, false, true, true, false)), (String ((Ascii (false, true,
+      true, false, true, true, true, false)), (String ((Ascii (true, false,
+      true, false, false, true, true, false)), (String ((Ascii (false, false,
+      true, false, false, true, true, false)), (String ((Ascii (false, false,
+      false, false, false, true, false, false)), (String ((Ascii (false,
+      false, true, false, false, true, true, false)), (String ((Ascii (true,
+      false, true, false, true, true, true, false)), (String ((Ascii (false,
+      true, false, false, true, true, true, false)), (String ((Ascii (true,
+      false, false, true, false, true, true, false)), (String ((Ascii (false,
+      true, true, true, false, true, true, false)), (String ((Ascii (true,
+      true, true, false, false, true, true, false)), (String ((Ascii (false,
+      false, false, false, false, true, false, false)), (String ((Ascii
+      (false, false, true, false, false, true, true, false)), (String ((Ascii
+      (true, false, false, false, false, true, true, false)), (String ((Ascii
+      (false, false, true, false, true, true, true, false)), (String ((Ascii
+      (true, false, false, false, false, true, true, false)), (String ((Ascii
+      (false, false, false, false, false, true, false, false)), (String
+      ((Ascii (true, true, false, false, true, true, true, false)), (String
+      ((Ascii (true, false, false, true, true, true, true, false)), (String
+      ((Ascii (false, true, true, true, false, true, true, false)), (String
+      ((Ascii (true, true, false, false, false, true, true, false)), (String
+      ((Ascii (false, false, false, true, false, true, true, false)), (String
+      ((Ascii (false, true, false, false, true, true, true, false)), (String
+      ((Ascii (true, true, true, true, false, true, true, false)), (String
+      ((Ascii (false, true, true, true, false, true, true, false)), (String
+      ((Ascii (true, false, false, true, false, true, true, false)), (String
+      ((Ascii (true, true, false, false, true, true, true, false)), (String
+      ((Ascii (true, false, false, false, false, true, true, false)), (String
+      ((Ascii (false, false, true, false, true, true, true, false)), (String
+      ((Ascii (true, false, false, true, false, true, true, false)), (String
+      ((Ascii (true, true, true, true, false, true, true, false)), (String
+      ((Ascii (false, true, true, true, false, true, true, false)),
+      EmptyString)))))))))))))))))))))))))))))))))))))))))))))))))))))))))))))))))))))))))))))))))))))))))))))))))))))))
+    (Z0 :: [])
+
+(** val txt_unexp_sync : byte list **)
+
+let txt_unexp_sync =
+  app
+    (str_bytes (String ((Ascii (true, false, true, false, true, false, true,
+      false)), (String ((Ascii (false, true, true, true, false, true, true,
+      false)), (String ((Ascii (true, false, true, false, false, true, true,
+      false)), (String ((Ascii (false, false, false, true, true, true, true,
+      false)), (String ((Ascii (false, false, false, false, true, true, true,
+      false)), (String ((Ascii (true, false, true, false, false, true, true,
+      false)), (String ((Ascii (true, true, false, false, false, true, true,
+      false)), (String ((Ascii (false, false, true, false, true, true, true,
+      false)), (String ((Ascii (true, false, true, false, false, true, true,
+      false)), (String ((Ascii (false, false, true, false, false, true, true,
+      false)), (String ((Ascii (false, false, false, false, false, true,
+      false, false)), (String ((Ascii (false, false, false, false, true,
+      false, true, false)), (String ((Ascii (false, false, true, false,
+      false, false, true, false)), (String ((Ascii (true, false, true, false,
+      true, false, true, false)), (String ((Ascii (false, false, false,
+      false, false, true, false, false)), (String ((Ascii (false, true,
+      false, false, true, true, true, false)), (String ((Ascii (true, false,
+      true, false, false, true, true, false)), (String ((Ascii (true, true,
+      false, false, false, true, true, false)), (String ((Ascii (true, false,
+      true, false, false, true, true, false)), (String ((Ascii (true, false,
+      false, true, false, true, true, false)), (String ((Ascii (false, true,
+      true, false, true, true, true, false)), (String ((Ascii (true, false,
+      true, false, false, true, true, false)), (String ((Ascii (false, false,
+      true, false, false, true, true, false)), (String ((Ascii (false, false,
+      false, false, false, true, false, false)), (String ((Ascii (true,
+      false, false, true, false, true, true, false)), (String ((Ascii (false,
+      true, true, true, false, true, true, false)), (String ((Ascii (false,
+      false, false, false, false, true, false, false)), (String ((Ascii
+      (false, false, true, false, false, true, true, false)), (String ((Ascii
+      (true, false, false, false, false, true, true, false)), (String ((Ascii
+      (false, false, true, false, true, true, true, false)), (String ((Ascii
+      (true, false, false, false, false, true, true, false)), (String ((Ascii
+      (false, false, false, false, false, true, false, false)), (String
+      ((Ascii (true, true, false, false, true, true, true, false)), (String
+      ((Ascii (true, false, false, true, true, true, true, false)), (String
+      ((Ascii (false, true, true, true, false, true, true, false)), (String
+      ((Ascii (true, true, false, false, false, true, true, false)), (String
+      ((Ascii (false, false, false, true, false, true, true, false)), (String
+      ((Ascii (false, true, false, false, true, true, true, false)), (String
+      ((Ascii (true, true, true, true, false, true, true, false)), (String
+      ((Ascii (false, true, true, true, false, true, true, false)), (String
+      ((Ascii (true, false, false, true, false, true, true, false)), (String
+      ((Ascii (true, true, false, false, true, true, true, false)), (String
+      ((Ascii (true, false, false, false, false, true, true, false)), (String
+      ((Ascii (false, false, true, false, true, true, true, false)), (String
+      ((Ascii (true, false, false, true, false, true, true, false)), (String
+      ((Ascii (true, true, true, true, false, true, true, false)), (String
+      ((Ascii (false, true, true, true, false, true, true, false)),
+      EmptyString)))))))))))))))))))))))))))))))))))))))))))))))))))))))))))))))))))))))))))))))))))))))))))))))
+    (Z0 :: [])
+
+(** val txt_wrong_session : byte list **)
+
+let txt_wrong_session =
+  app
+    (str_bytes (String ((Ascii (true, true, true, false, true, false, true,
+      false)), (String ((Ascii (false, true, false, false, true, true, true,
+      false)), (String ((Ascii (true, true, true, true, false, true, true,
+      false)), (String ((Ascii (false, true, true, true, false, true, true,
+      false)), (String ((Ascii (true, true, true, false, false, true, true,
+      false)), (String ((Ascii (false, false, false, false, false, true,
+      false, false)), (String ((Ascii (true, true, false, false, true, true,
+      true, false)), (String ((Ascii (true, false, true, false, false, true,
+      true, false)), (String ((Ascii (true, true, false, false, true, true,
+      true, false)), (String ((Ascii (true, true, false, false, true, true,
+      true, false)), (String ((Ascii (true, false, false, true, false, true,
+      true, false)), (String ((Ascii (true, true, true, true, false, true,
+      true, false)), (String ((Ascii (false, true, true, true, false, true,
+      true, false)), (String ((Ascii (true, true, true, true, true, false,
+      true, false)), (String ((Ascii (true, false, false, true, false, true,
+      true, false)), (String ((Ascii (false, false, true, false, false, true,
+      true, false)), (String ((Ascii (false, false, false, false, false,
+      true, false, false)), (String ((Ascii (true, false, false, true, false,
+      true, true, false)), (String ((Ascii (false, true, true, true, false,
+      true, true, false)), (String ((Ascii (false, false, false, false,
+      false, true, false, false)), (String ((Ascii (true, true, false, false,
+      false, false, true, false)), (String ((Ascii (true, false, false,
+      false, false, true, true, false)), (String ((Ascii (true, true, false,
+      false, false, true, true, false)), (String ((Ascii (false, false,
+      false, true, false, true, true, false)), (String ((Ascii (true, false,
+      true, false, false, true, true, false)), (String ((Ascii (false, false,
+      false, false, false, true, false, false)), (String ((Ascii (false,
+      true, false, false, true, false, true, false)), (String ((Ascii (true,
+      false, true, false, false, true, true, false)), (String ((Ascii (true,
+      true, false, false, true, true, true, false)), (String ((Ascii (false,
+      false, false, false, true, true, true, false)), (String ((Ascii (true,
+      true, true, true, false, true, true, false)), (String ((Ascii (false,
+      true, true, true, false, true, true, false)), (String ((Ascii (true,
+      true, false, false, true, true, true, false)), (String ((Ascii (true,
+      false, true, false, false, true, true, false)), (String ((Ascii (false,
+      false, false, false, false, true, false, false)), (String ((Ascii
+      (false, false, false, false, true, false, true, false)), (String
+      ((Ascii (false, false, true, false, false, false, true, false)),
+      (String ((Ascii (true, false, true, false, true, false, true, false)),
+      EmptyString)))))))))))))))))))))))))))))))))))))))))))))))))))))))))))))))))))))))))))))
+    (Z0 :: [])
+
+(** val store_loop :
+    nat -> byte list list -> byte list list -> byte list list -> world -> z
+    res **)
+
+let rec store_loop fuel v4 v6 ks =
+  match fuel with
+  | O -> ret (Zneg (XI (XO (XI (XI (XO (XO XH)))))))
+  | S f ->
+    bind (receive_pdu c_RTR_RECV_TIMEOUT) (fun r ->
+      match r with
+      | Inl c ->
+        if (||) (Z.eqb c (Zneg (XO XH))) (Z.eqb c (Zneg (XO (XO XH))))
+        then bind (change_state c_RTR_ERROR_TRANSPORT) (fun _ ->
+               ret (Zneg XH))
+        else ret (Zneg XH)
+      | Inr p ->
+        let ty = nthb p (S O) in
+        if (&&) ((||) (Z.eqb ty c_IPV4_PREFIX) (Z.eqb ty c_IPV6_PREFIX))
+             (negb (prefix_lengths_valid p))
+        then bind (send_error_from_host p c_CORRUPT_DATA txt_pfx_len)
+               (fun _ ->
+               bind (change_state c_RTR_ERROR_FATAL) (fun _ -> ret (Zneg XH)))
+        else if Z.eqb ty c_IPV4_PREFIX
+             then store_loop f (app v4 (p :: [])) v6 ks
+             else if Z.eqb ty c_IPV6_PREFIX
+                  then store_loop f v4 (app v6 (p :: [])) ks
+                  else if Z.eqb ty c_ROUTER_KEY
+                       then store_loop f v4 v6 (app ks (p :: []))
+                       else if Z.eqb ty c_EOD
+                            then process_eod p v4 v6 ks
+                            else if Z.eqb ty c_ERROR
+                                 then bind (handle_error_pdu p) (fun _ ->
+                                        ret (Zneg XH))
+                                 else if Z.eqb ty c_SERIAL_NOTIFY
+                                      then store_loop f v4 v6 ks
+                                      else bind
+                                             (send_error_from_host
+                                               (firstn (S (S (S (S (S (S (S
+                                                 (S O)))))))) p)
+                                               c_CORRUPT_DATA txt_unexp_store)
+                                             (fun _ -> ret (Zneg XH)))
+
+(** val receive_and_store : nat -> world -> z res **)
+
+let receive_and_store fuel =
+  bind (store_loop fuel [] [] []) (fun r ->
+    bind
+      (modify_sk (fun s -> if s.resetting then upd_resetting s false else s))
+      (fun _ -> ret r))
+
+(** val sync_first : nat -> world -> byte list option res **)
+
+let rec sync_first = function
+| O -> ret None
+| S f ->
+  bind (receive_pdu c_RTR_RECV_TIMEOUT) (fun r ->
+    match r with
+    | Inl c ->
+      bind get_sk (fun s ->
+        if (&&) ((&&) (Z.eqb c (Zneg (XO (XO XH)))) s.req_sess)
+             (Z.gtb s.version c_RTR_PROTOCOL_MIN_SUPPORTED_VERSION)
+        then bind (set_sk (upd_version s (Z.sub s.version (Zpos XH))))
+               (fun _ ->
+               bind (change_state c_RTR_FAST_RECONNECT) (fun _ -> ret None))
+        else if (||) (Z.eqb c (Zneg (XO XH))) (Z.eqb c (Zneg (XO (XO XH))))
+             then bind (change_state c_RTR_ERROR_TRANSPORT) (fun _ ->
+                    ret None)
+             else ret None)
+    | Inr p ->
+      if Z.eqb (nthb p (S O)) c_SERIAL_NOTIFY
+      then sync_first f
+      else ret (Some p))
+
+(** val rtr_sync : nat -> world -> z res **)
+
+let rtr_sync fuel =
+  bind (sync_first fuel) (fun fp ->
+    match fp with
+    | Some p ->
+      let ty = nthb p (S O) in
+      if Z.eqb ty c_ERROR
+      then bind (handle_error_pdu p) (fun _ -> ret (Zneg XH))
+      else if Z.eqb ty c_CACHE_RESET
+           then bind (change_state c_RTR_ERROR_NO_INCR_UPDATE_AVAIL)
+                  (fun _ -> ret (Zneg XH))
+           else if Z.eqb ty c_CACHE_RESPONSE
+                then bind get_sk (fun s ->
+                       bind
+                         (if s.req_sess
+                          then bind
+                                 (set_sk
+                                   (upd_session
+                                     (if negb (Z.eqb s.last_update Z0)
+                                      then upd_resetting s true
+                                      else s) (get16 p (S (S O))))) (fun _ ->
+                                 ret true)
+                          else if negb
+                                    (Z.eqb s.session_id (get16 p (S (S O))))
+                               then bind
+                                      (send_error_from_host [] c_CORRUPT_DATA
+                                        txt_wrong_session) (fun _ ->
+                                      bind (change_state c_RTR_ERROR_FATAL)
+                                        (fun _ -> ret false))
+                               else ret true) (fun ok ->
+                         if negb ok
+                         then ret (Zneg XH)
+                         else bind (receive_and_store fuel) (fun r ->
+                                if Z.eqb r Z0
+                                then bind
+                                       (modify_sk (fun s0 ->
+                                         upd_req s0 false)) (fun _ ->
+                                       bind get_now (fun t ->
+                                         bind
+                                           (modify_sk (fun s0 ->
+                                             upd_last s0 t)) (fun _ -> 
+                                           ret Z0)))
+                                else ret (Zneg XH))))
+                else bind
+                       (send_error_from_host
+                         (firstn (S (S (S (S (S (S (S (S O)))))))) p)
+                         c_CORRUPT_DATA txt_unexp_sync) (fun _ ->
+                       ret (Zneg XH))
+    | None -> ret (Zneg XH))
+
+(** val wait_for_sync : world -> z res **)
+
+let wait_for_sync =
+  bind get_sk (fun s ->
+    bind get_now (fun t ->
+      let wait = Z.max Z0 (Z.sub (Z.add s.last_update s.refresh_iv) t) in
+      bind (receive_pdu wait) (fun r ->
+        match r with
+        | Inl c ->
+          if Z.eqb c (Zneg (XO XH))
+          then ret Z0
+          else if Z.eqb c (Zneg (XO (XO XH)))
+               then bind (change_state c_RTR_ERROR_TRANSPORT) (fun _ ->
+                      ret (Zneg XH))
+               else ret (Zneg XH)
+        | Inr p ->
+          if Z.eqb (nthb p (S O)) c_SERIAL_NOTIFY
+          then ret Z0
+          else ret (Zneg XH))))
+
+(** val purge_outdated : world -> unit res **)
+
+let purge_outdated =
+  bind get_sk (fun s ->
+    bind get_now (fun t ->
+      if Z.eqb s.last_update Z0
+      then ret ()
+      else if Z.ltb (Z.add s.last_update s.expire_iv) t
+           then bind src_remove_all (fun _ ->
+                  modify_sk (fun s0 ->
+                    upd_resetting
+                      (upd_last (upd_serial (upd_req s0 true) Z0) Z0) true))
+           else ret ()))
+
+(** val fsm_step : nat -> world -> unit res **)
+
+let fsm_step fuel =
+  bind get_sk (fun s ->
+    let state = s.st in
+    if Z.eqb state c_RTR_CONNECTING
+    then bind (set_sk (upd_hasrecv s false)) (fun _ ->
+           bind purge_outdated (fun _ ->
+             bind tr_open (fun ok ->
+               if negb ok
+               then change_state c_RTR_ERROR_TRANSPORT
+               else bind get_sk (fun s1 ->
+                      if s1.req_sess
+                      then change_state c_RTR_RESET
+                      else bind send_serial_query (fun r ->
+                             if Z.eqb r Z0
+                             then change_state c_RTR_SYNC
+                             else change_state c_RTR_ERROR_FATAL)))))
+    else if Z.eqb state c_RTR_RESET
+         then bind send_reset_query (fun r ->
+                if Z.eqb r Z0 then change_state c_RTR_SYNC else ret ())
+         else if Z.eqb state c_RTR_SYNC
+              then bind (rtr_sync fuel) (fun r ->
+                     if Z.eqb r Z0
+                     then change_state c_RTR_ESTABLISHED
+                     else ret ())
+              else if Z.eqb state c_RTR_ESTABLISHED
+                   then bind wait_for_sync (fun r ->
+                          if Z.eqb r Z0
+                          then bind send_serial_query (fun q ->
+                                 if Z.eqb q Z0
+                                 then change_state c_RTR_SYNC
+                                 else ret ())
+                          else ret ())
+                   else if Z.eqb state c_RTR_FAST_RECONNECT
+                        then bind tr_close (fun _ ->
+                               change_state c_RTR_CONNECTING)
+                        else if Z.eqb state c_RTR_ERROR_NO_DATA_AVAIL
+                             then bind
+                                    (set_sk (upd_serial (upd_req s true) Z0))
+                                    (fun _ ->
+                                    bind (change_state c_RTR_RESET) (fun _ ->
+                                      bind (do_sleep s.retry_iv) (fun _ ->
+                                        purge_outdated)))
+                             else if Z.eqb state
+                                       c_RTR_ERROR_NO_INCR_UPDATE_AVAIL
+                                  then bind
+                                         (set_sk
+                                           (upd_serial (upd_req s true) Z0))
+                                         (fun _ ->
+                                         bind (change_state c_RTR_RESET)
+                                           (fun _ -> purge_outdated))
+                                  else if (||)
+                                            (Z.eqb state
+                                              c_RTR_ERROR_TRANSPORT)
+                                            (Z.eqb state c_RTR_ERROR_FATAL)
+                                       then bind tr_close (fun _ ->
+                                              bind
+                                                (change_state
+                                                  c_RTR_CONNECTING) (fun _ ->
+                                                do_sleep s.retry_iv))
+                                       else ret ())
+
+(** val rtr_stop : world -> unit res **)
+
+let rtr_stop =
+  bind (emit TStopping) (fun _ ->
+    bind (change_state c_RTR_SHUTDOWN) (fun _ ->
+      bind tr_close (fun _ ->
+        bind
+          (modify_sk (fun s -> upd_last (upd_serial (upd_req s true) Z0) Z0))
+          (fun _ ->
+          bind src_remove_all (fun _ ->
+            modify_sk (fun s -> upd_st s c_RTR_CLOSED))))))
+
+(** val dump : z -> world -> unit res **)
+
+let dump tag0 w =
+  let s = w.sk in
+  emit (TDump (tag0,
+    (s.st :: (s.version :: (s.session_id :: ((if s.req_sess
+                                              then Zpos XH
+                                              else Z0) :: (s.serial :: (s.last_update :: (s.refresh_iv :: (s.expire_iv :: (s.retry_iv :: ((
+    if s.resetting then Zpos XH else Z0) :: (w.now :: []))))))))))), w.pfx,
+    w.keys)) w
+
+(** val run_fsm : nat -> nat -> world -> world **)
+
+let rec run_fsm n0 fuel w =
+  match n0 with
+  | O -> w
+  | S n' ->
+    (match fsm_step fuel w with
+     | Ok (_, w') -> run_fsm n' fuel w'
+     | Exc (e, w') ->
+       (match e with
+        | XEnd _ -> w'
+        | XStop ->
+          (match bind rtr_stop (fun _ ->
+                   bind (dump (Zpos XH)) (fun _ ->
+                     modify_sk (fun s -> upd_st s c_RTR_CONNECTING))) w' with
+           | Ok (_, w2) -> run_fsm n' fuel w2
+           | Exc (_, w2) -> w2)))
+
+(** val init_sock : z -> z -> z -> z -> sock **)
+
+let init_sock refresh expire retry mode =
+  { st = c_RTR_CLOSED; version = c_RTR_PROTOCOL_MAX_SUPPORTED_VERSION;
+    session_id = Z0; req_sess = true; serial = Z0; last_update = Z0;
+    refresh_iv = refresh; expire_iv = expire; retry_iv = retry; iv_mode =
+    mode; has_recv = false; resetting = false }
+
+(** val init_ok : z -> z -> z -> bool **)
+
+let init_ok refresh expire retry =
+  (&&)
+    ((&&) (Z.eqb (iv_range refresh c_RTR_REFRESH_MIN c_RTR_REFRESH_MAX) Z0)
+      (Z.eqb (iv_range expire c_RTR_EXPIRATION_MIN c_RTR_EXPIRATION_MAX) Z0))
+    (Z.eqb (iv_range retry c_RTR_RETRY_MIN c_RTR_RETRY_MAX) Z0)
+
+(** val run_script :
+    nat -> nat -> z -> z -> z -> z -> (((((bool * bool
+    list) * z) * z) * z) * z) list -> (((z * byte list) * byte list) * z)
+    list -> ev list -> bool list -> z list -> titem list **)
+
+let run_script n0 fuel refresh expire retry mode p k es os ss =
+  if negb (init_ok refresh expire retry)
+  then []
+  else let w0 = { sk = (init_sock refresh expire retry mode); pfx = p; keys =
+         k; evs = es; opens = os; sends = ss; now = (Zpos (XO (XO (XO (XI (XO
+         (XI (XI (XI (XI XH)))))))))); out = [] }
+       in
+       let w1 = match dump Z0 w0 with
+                | Ok (_, w) -> w
+                | Exc (_, w) -> w in
+       let w2 =
+         run_fsm n0 fuel { sk = (upd_st w1.sk c_RTR_CONNECTING); pfx =
+           w1.pfx; keys = w1.keys; evs = w1.evs; opens = w1.opens; sends =
+           w1.sends; now = w1.now; out = w1.out }
+       in
+       let w3 =
+         match dump (Zpos (XO XH)) w2 with
+         | Ok (_, w) -> w
+         | Exc (_, w) -> w
+       in
+       rev w3.out
